@@ -1,9 +1,1628 @@
 import CfrVerif.Proofs.Frontier
+import CfrVerif.Proofs.GameWF
 /-!
 # Frontier decomposition for the external-sampling multi-threaded pass
 -/
 set_option linter.unusedSectionVars false
 namespace Cfr
 variable {α : Type} [Field α] [LinearOrder α] [IsStrictOrderedRing α] [Transc α]
+
+/-! ## unfolding equations in projection form -/
+
+theorem erec_chance_eq (c : ECtx α) (i : Nat) (ks : List (Node α)) (d : DrawSt α) :
+    erec c (.chance i ks) d =
+      erecNth c ks (sampleChance c.draw c.chancePass (c.ch.getD i []) i d).1
+        (sampleChance c.draw c.chancePass (c.ch.getD i []) i d).2 := by
+  simp only [erec]
+
+theorem erec_own_eq (c : ECtx α) (one : Bool) (i : Nat) (ks : List (Node α)) (d : DrawSt α)
+    (h : (one == c.first) = true) :
+    erec c (.player one i ks) d =
+      ((erecActs c one i (c.strat one i) ks d 0 0).1,
+       (erecActs c one i (c.strat one i) ks d 0 0).2.1 ++
+         subEffsE one i (erecActs c one i (c.strat one i) ks d 0 0).1 (c.strat one i).length,
+       (erecActs c one i (c.strat one i) ks d 0 0).2.2) := by
+  simp only [erec, if_pos h]
+
+theorem erec_opp_eq (c : ECtx α) (one : Bool) (i : Nat) (ks : List (Node α)) (d : DrawSt α)
+    (h : ¬ (one == c.first) = true) :
+    erec c (.player one i ks) d =
+      ((erecNth c ks (samplePlayer c.draw (if one then 1 else 2) c.playerPass (c.strat one i) i d).1
+          (samplePlayer c.draw (if one then 1 else 2) c.playerPass (c.strat one i) i d).2).1,
+       extStratEffs one i (c.strat one i) 0 ++
+        (erecNth c ks (samplePlayer c.draw (if one then 1 else 2) c.playerPass (c.strat one i) i d).1
+          (samplePlayer c.draw (if one then 1 else 2) c.playerPass (c.strat one i) i d).2).2.1,
+       (erecNth c ks (samplePlayer c.draw (if one then 1 else 2) c.playerPass (c.strat one i) i d).1
+          (samplePlayer c.draw (if one then 1 else 2) c.playerPass (c.strat one i) i d).2).2.2) := by
+  simp only [erec, if_neg h]
+
+theorem erecActs_cons_eq (c : ECtx α) (one : Bool) (j : Nat) (s : α) (σ : List α) (k : Node α)
+    (ks : List (Node α)) (d : DrawSt α) (a : Nat) (ex : α) :
+    erecActs c one j (s :: σ) (k :: ks) d a ex =
+      ((erecActs c one j σ ks (erec c k d).2.2 (a + 1) (ex + s * (erec c k d).1)).1,
+       (erec c k d).2.1 ++ ⟨one, j, .regret, a, (erec c k d).1⟩ ::
+         (erecActs c one j σ ks (erec c k d).2.2 (a + 1) (ex + s * (erec c k d).1)).2.1,
+       (erecActs c one j σ ks (erec c k d).2.2 (a + 1) (ex + s * (erec c k d).1)).2.2) := by
+  simp only [erecActs]
+
+/-! ## Part B: an infoset of the updating player is visited at most once per pass -/
+
+/-- the accumulations counted by `active_infoset_visited_once` -/
+def EHit (first : Bool) (i : Nat) (e : Eff α) : Bool :=
+  e.one == first && e.info == i && e.slot == Slot.regret && e.act == 0
+
+theorem Slot.strat_beq_regret : (Slot.strat == Slot.regret) = false := rfl
+theorem Slot.regret_beq_regret : (Slot.regret == Slot.regret) = true := rfl
+
+theorem EHit_extStratEffs (first : Bool) (i : Nat) (one : Bool) (j : Nat) (σ : List α) (a : Nat) :
+    (extStratEffs one j σ a).countP (EHit first i) = 0 := by
+  induction σ generalizing a with
+  | nil => simp [extStratEffs]
+  | cons s σ ih =>
+    simp only [extStratEffs, List.countP_cons, ih]
+    simp [EHit, Slot.strat_beq_regret]
+
+theorem EHit_subEffsE_le (first : Bool) (i : Nat) (one : Bool) (j : Nat) (ex : α) (n : Nat) :
+    (subEffsE one j ex n).countP (EHit first i) ≤ 1 := by
+  unfold subEffsE
+  cases n with
+  | zero => simp
+  | succ n =>
+    rw [List.range_succ_eq_map, List.map_cons, List.map_map, List.countP_cons, List.countP_map]
+    have : List.countP (EHit first i ∘ (fun a => (⟨one, j, Slot.regret, a, -ex⟩ : Eff α)) ∘ Nat.succ)
+        (List.range n) = 0 := by
+      rw [List.countP_eq_zero]
+      intro a _
+      simp [EHit]
+    rw [this]
+    split_ifs <;> omega
+
+theorem EHit_subEffsE_ne (first : Bool) (i : Nat) (one : Bool) (j : Nat) (ex : α) (n : Nat)
+    (h : j ≠ i) : (subEffsE one j ex n).countP (EHit first i) = 0 := by
+  unfold subEffsE
+  rw [List.countP_eq_zero]
+  intro e he
+  obtain ⟨a, _, rfl⟩ := List.mem_map.mp he
+  simp [EHit, h]
+
+theorem prefix_snoc_inj {β : Type} {H l : List β} {x y : β} (h1 : (H ++ [x]) <+: l)
+    (h2 : (H ++ [y]) <+: l) : x = y := by
+  rw [List.prefix_iff_eq_take] at h1 h2
+  have hl : (H ++ [x]).length = (H ++ [y]).length := by simp
+  rw [hl, ← h2] at h1
+  simpa using h1
+
+mutual
+theorem erec_hit (c : ECtx α) (hist : Nat → Hist) (i : Nat) :
+    ∀ (n : Node α) (H : Hist) (d : DrawSt α), PR c.first hist H n →
+      ((erec c n d).2.1.countP (EHit c.first i) ≤ 2 ∧
+       (0 < (erec c n d).2.1.countP (EHit c.first i) → H <+: hist i))
+  | .term p, H, d, _ => by simp [erec]
+  | .chance j ks, H, d, h => by
+    rw [erec_chance_eq]
+    exact erecNth_hit c hist i ks _ H _ (by simpa [PR] using h)
+  | .player one j ks, H, d, h => by
+    by_cases ho : (one == c.first) = true
+    · rw [erec_own_eq c one j ks d ho]
+      have ho' : one = c.first := by simpa using ho
+      obtain ⟨hH, hD⟩ := (by simpa [PR, ho'] using h : hist j = H ∧ PRD c.first hist H j 0 ks)
+      simp only [List.countP_append]
+      obtain ⟨h1, h2⟩ := erecActs_hit c hist i one j (c.strat one j) ks H d 0 0 hD
+      by_cases hj : j = i
+      · subst hj
+        have h3 := h2 rfl hH
+        have h4 := EHit_subEffsE_le c.first j one j
+          (erecActs c one j (c.strat one j) ks d 0 0).1 (c.strat one j).length
+        simp only [if_true] at h3
+        refine ⟨by omega, fun _ => hH ▸ List.prefix_refl _⟩
+      · have h3 := h1 hj
+        rw [EHit_subEffsE_ne _ _ _ _ _ _ hj, Nat.add_zero]
+        refine ⟨h3.1, fun hp => ?_⟩
+        obtain ⟨a', _, hpre⟩ := h3.2 hp
+        exact (List.prefix_append _ _).trans hpre
+    · rw [erec_opp_eq c one j ks d ho]
+      have ho' : ¬ one = c.first := by simpa using ho
+      have hL : PRL c.first hist H ks := by simpa [PR, ho'] using h
+      simp only [List.countP_append, EHit_extStratEffs, Nat.zero_add]
+      exact erecNth_hit c hist i ks _ H _ hL
+theorem erecNth_hit (c : ECtx α) (hist : Nat → Hist) (i : Nat) :
+    ∀ (ks : List (Node α)) (k : Nat) (H : Hist) (d : DrawSt α), PRL c.first hist H ks →
+      ((erecNth c ks k d).2.1.countP (EHit c.first i) ≤ 2 ∧
+       (0 < (erecNth c ks k d).2.1.countP (EHit c.first i) → H <+: hist i))
+  | [], _, H, d, _ => by simp [erecNth]
+  | k :: _, 0, H, d, h => by
+    simp only [erecNth]
+    exact erec_hit c hist i k H d (by simpa [PRL] using h : PR c.first hist H k ∧ _).1
+  | _ :: ks, n + 1, H, d, h => by
+    simp only [erecNth]
+    exact erecNth_hit c hist i ks n H d (by simpa [PRL] using h : _ ∧ PRL c.first hist H ks).2
+theorem erecActs_hit (c : ECtx α) (hist : Nat → Hist) (i : Nat) (one : Bool) (j : Nat) :
+    ∀ (σ : List α) (ks : List (Node α)) (H : Hist) (d : DrawSt α) (a : Nat) (ex : α),
+      PRD c.first hist H j a ks →
+      (j ≠ i → ((erecActs c one j σ ks d a ex).2.1.countP (EHit c.first i) ≤ 2 ∧
+        (0 < (erecActs c one j σ ks d a ex).2.1.countP (EHit c.first i) →
+          ∃ a', a ≤ a' ∧ (H ++ [(j, a')]) <+: hist i))) ∧
+      (j = i → hist i = H →
+        (erecActs c one j σ ks d a ex).2.1.countP (EHit c.first i) ≤ (if a = 0 then 1 else 0))
+  | s :: σ, k :: ks, H, d, a, ex, h => by
+    obtain ⟨hk, hks⟩ :=
+      (by simpa [PRD] using h : PR c.first hist (H ++ [(j, a)]) k ∧ PRD c.first hist H j (a + 1) ks)
+    rw [erecActs_cons_eq]
+    simp only [List.countP_append, List.countP_cons]
+    obtain ⟨c1, c2⟩ := erec_hit c hist i k (H ++ [(j, a)]) d hk
+    obtain ⟨r1, r2⟩ := erecActs_hit c hist i one j σ ks H (erec c k d).2.2 (a + 1)
+      (ex + s * (erec c k d).1) hks
+    constructor
+    · intro hj
+      have hE : EHit c.first i (⟨one, j, Slot.regret, a, (erec c k d).1⟩ : Eff α) = false := by
+        simp [EHit, hj]
+      rw [hE]
+      simp only [Bool.false_eq_true, if_false, Nat.add_zero]
+      obtain ⟨r3, r4⟩ := r1 hj
+      by_cases hp1 : 0 < (erec c k d).2.1.countP (EHit c.first i)
+      · by_cases hp2 : 0 < (erecActs c one j σ ks (erec c k d).2.2 (a + 1)
+            (ex + s * (erec c k d).1)).2.1.countP (EHit c.first i)
+        · obtain ⟨a', ha', hpre⟩ := r4 hp2
+          have := prefix_snoc_inj (c2 hp1) hpre
+          simp only [Prod.mk.injEq, true_and] at this
+          omega
+        · refine ⟨by omega, fun _ => ⟨a, le_refl _, c2 hp1⟩⟩
+      · refine ⟨by omega, fun hp => ?_⟩
+        obtain ⟨a', ha', hpre⟩ := r4 (by omega)
+        exact ⟨a', by omega, hpre⟩
+    · intro hj hH
+      have h0 : (erec c k d).2.1.countP (EHit c.first i) = 0 := by
+        by_contra hne
+        have := (c2 (by omega)).length_le
+        rw [hj, hH] at this
+        simp at this
+      have h1 := r2 hj hH
+      rw [if_neg (by omega)] at h1
+      rw [h0]
+      by_cases ha : a = 0
+      · rw [if_pos ha]; split_ifs <;> omega
+      · rw [if_neg ha]
+        have hE : EHit c.first i (⟨one, j, Slot.regret, a, (erec c k d).1⟩ : Eff α) = false := by
+          simp [EHit, ha]
+        rw [hE]
+        simp only [Bool.false_eq_true, if_false]
+        omega
+  | [], _, H, d, a, _, _ => by simp [erecActs]
+  | _ :: _, [], H, d, a, _, _ => by simp [erecActs]
+end
+
+/-- **an infoset of the updating player is visited at most once in a pass** (perfect recall) -/
+theorem erec_hit_le_two (c : ECtx α) (hist : Nat → Hist) (i : Nat) (n : Node α) (d : DrawSt α)
+    (h : PR c.first hist [] n) : (erec c n d).2.1.countP (EHit c.first i) ≤ 2 :=
+  (erec_hit c hist i n [] d h).1
+
+/-! ## Part A: the pure traversal
+
+Under a *consistent* draw state (every cached sample is the oracle's answer) a traversal's value
+and accumulations do not depend on the caches: `precC` is the traversal with the oracle's answers
+substituted, returning the value and the list of *events* (atomic accumulations and sample
+requests) in the order in which they happen. -/
+
+/-- a sample request: a chance infoset or an infoset of the non-updating player -/
+inductive EReq where
+  | ch (i : Nat)
+  | pl (i : Nat)
+  deriving DecidableEq
+
+inductive EEv (α : Type) where
+  | eff (e : Eff α)
+  | req (r : EReq)
+
+def EEv.getEff : EEv α → Option (Eff α)
+  | .eff e => some e
+  | .req _ => none
+def EEv.getReq : EEv α → Option EReq
+  | .eff _ => none
+  | .req r => some r
+def effsOf (l : List (EEv α)) : List (Eff α) := l.filterMap EEv.getEff
+def reqsOf (l : List (EEv α)) : List EReq := l.filterMap EEv.getReq
+
+@[simp] theorem effsOf_nil : effsOf ([] : List (EEv α)) = [] := rfl
+@[simp] theorem reqsOf_nil : reqsOf ([] : List (EEv α)) = [] := rfl
+@[simp] theorem effsOf_append (a b : List (EEv α)) : effsOf (a ++ b) = effsOf a ++ effsOf b := by
+  simp [effsOf]
+@[simp] theorem reqsOf_append (a b : List (EEv α)) : reqsOf (a ++ b) = reqsOf a ++ reqsOf b := by
+  simp [reqsOf]
+@[simp] theorem effsOf_cons_eff (e : Eff α) (l : List (EEv α)) :
+    effsOf (.eff e :: l) = e :: effsOf l := by simp [effsOf, EEv.getEff]
+@[simp] theorem effsOf_cons_req (r : EReq) (l : List (EEv α)) :
+    effsOf (.req r :: l) = effsOf l := by
+  simp only [effsOf]; rw [List.filterMap_cons_none]; rfl
+@[simp] theorem reqsOf_cons_eff (e : Eff α) (l : List (EEv α)) :
+    reqsOf (.eff e :: l) = reqsOf l := by
+  simp only [reqsOf]; rw [List.filterMap_cons_none]; rfl
+@[simp] theorem reqsOf_cons_req (r : EReq) (l : List (EEv α)) :
+    reqsOf (.req r :: l) = r :: reqsOf l := by simp [reqsOf, EEv.getReq]
+@[simp] theorem effsOf_map_eff (l : List (Eff α)) : effsOf (l.map EEv.eff) = l := by
+  induction l with
+  | nil => rfl
+  | cons e l ih => simp [ih]
+@[simp] theorem reqsOf_map_eff (l : List (Eff α)) : reqsOf (l.map EEv.eff) = [] := by
+  induction l with
+  | nil => rfl
+  | cons e l ih => simp [ih]
+
+/-- the oracle's answer at chance infoset `i` in this pass -/
+def ECtx.oc (c : ECtx α) (i : Nat) : Nat := c.draw 0 i c.chancePass (c.ch.getD i [])
+/-- the oracle's answer at infoset `i` of the non-updating player in this pass -/
+def ECtx.op (c : ECtx α) (i : Nat) : Nat :=
+  c.draw (if !c.first then 1 else 2) i c.playerPass (c.strat (!c.first) i)
+
+mutual
+def precC (c : ECtx α) (cache : List (Path × α)) : Node α → Path → α × List (EEv α)
+  | n, path =>
+    match cacheGet cache path with
+    | some pay => (pay, [])
+    | none =>
+      match n with
+      | .term p => (if c.first then p else -p, [])
+      | .chance i ks =>
+        ((precCNth c cache ks (c.oc i) (path ++ [c.oc i])).1,
+          .req (.ch i) :: (precCNth c cache ks (c.oc i) (path ++ [c.oc i])).2)
+      | .player one i ks =>
+        if one == c.first then
+          ((precCActs c cache one i (c.strat one i) ks path 0 0).1,
+           (precCActs c cache one i (c.strat one i) ks path 0 0).2 ++
+             (subEffsE one i (precCActs c cache one i (c.strat one i) ks path 0 0).1
+               (c.strat one i).length).map .eff)
+        else
+          ((precCNth c cache ks (c.op i) (path ++ [c.op i])).1,
+           .req (.pl i) :: ((extStratEffs one i (c.strat one i) 0).map .eff ++
+             (precCNth c cache ks (c.op i) (path ++ [c.op i])).2))
+def precCNth (c : ECtx α) (cache : List (Path × α)) : List (Node α) → Nat → Path → α × List (EEv α)
+  | [], _, _ => (0, [])
+  | k :: _, 0, path => precC c cache k path
+  | _ :: ks, n + 1, path => precCNth c cache ks n path
+def precCActs (c : ECtx α) (cache : List (Path × α)) (one : Bool) (i : Nat) :
+    List α → List (Node α) → Path → Nat → α → α × List (EEv α)
+  | s :: σ, k :: ks, path, a, ex =>
+    ((precCActs c cache one i σ ks path (a + 1) (ex + s * (precC c cache k (path ++ [a])).1)).1,
+     (precC c cache k (path ++ [a])).2 ++
+       .eff ⟨one, i, .regret, a, (precC c cache k (path ++ [a])).1⟩ ::
+       (precCActs c cache one i σ ks path (a + 1) (ex + s * (precC c cache k (path ++ [a])).1)).2)
+  | _, _, _, _, ex => (ex, [])
+end
+
+theorem precC_hit (c : ECtx α) (cache : List (Path × α)) (n : Node α) (path : Path) (v : α)
+    (h : cacheGet cache path = some v) : precC c cache n path = (v, []) := by
+  cases n <;> simp only [precC, h]
+
+theorem precC_term (c : ECtx α) (cache : List (Path × α)) (p : α) (path : Path)
+    (h : cacheGet cache path = none) :
+    precC c cache (.term p) path = (if c.first then p else -p, []) := by
+  simp only [precC, h]
+
+theorem precC_chance (c : ECtx α) (cache : List (Path × α)) (i : Nat) (ks : List (Node α))
+    (path : Path) (h : cacheGet cache path = none) :
+    precC c cache (.chance i ks) path =
+      ((precCNth c cache ks (c.oc i) (path ++ [c.oc i])).1,
+        .req (.ch i) :: (precCNth c cache ks (c.oc i) (path ++ [c.oc i])).2) := by
+  simp only [precC, h]
+
+theorem precC_own (c : ECtx α) (cache : List (Path × α)) (one : Bool) (i : Nat)
+    (ks : List (Node α)) (path : Path) (h : cacheGet cache path = none)
+    (ho : (one == c.first) = true) :
+    precC c cache (.player one i ks) path =
+      ((precCActs c cache one i (c.strat one i) ks path 0 0).1,
+       (precCActs c cache one i (c.strat one i) ks path 0 0).2 ++
+         (subEffsE one i (precCActs c cache one i (c.strat one i) ks path 0 0).1
+           (c.strat one i).length).map .eff) := by
+  simp only [precC, h, if_pos ho]
+
+theorem precC_opp (c : ECtx α) (cache : List (Path × α)) (one : Bool) (i : Nat)
+    (ks : List (Node α)) (path : Path) (h : cacheGet cache path = none)
+    (ho : ¬ (one == c.first) = true) :
+    precC c cache (.player one i ks) path =
+      ((precCNth c cache ks (c.op i) (path ++ [c.op i])).1,
+       .req (.pl i) :: ((extStratEffs one i (c.strat one i) 0).map .eff ++
+         (precCNth c cache ks (c.op i) (path ++ [c.op i])).2)) := by
+  simp only [precC, h, if_neg ho]
+
+theorem precCActs_cons (c : ECtx α) (cache : List (Path × α)) (one : Bool) (i : Nat) (s : α)
+    (σ : List α) (k : Node α) (ks : List (Node α)) (path : Path) (a : Nat) (ex : α) :
+    precCActs c cache one i (s :: σ) (k :: ks) path a ex =
+    ((precCActs c cache one i σ ks path (a + 1) (ex + s * (precC c cache k (path ++ [a])).1)).1,
+     (precC c cache k (path ++ [a])).2 ++
+       .eff ⟨one, i, .regret, a, (precC c cache k (path ++ [a])).1⟩ ::
+       (precCActs c cache one i σ ks path (a + 1) (ex + s * (precC c cache k (path ++ [a])).1)).2) := by
+  simp only [precCActs]
+
+theorem precCActs_nil_left (c : ECtx α) (cache : List (Path × α)) (one : Bool) (i : Nat)
+    (ks : List (Node α)) (path : Path) (a : Nat) (ex : α) :
+    precCActs c cache one i [] ks path a ex = (ex, []) := by
+  simp only [precCActs]
+
+theorem precCActs_nil_right (c : ECtx α) (cache : List (Path × α)) (one : Bool) (i : Nat)
+    (σ : List α) (path : Path) (a : Nat) (ex : α) :
+    precCActs c cache one i σ [] path a ex = (ex, []) := by
+  cases σ <;> simp only [precCActs]
+
+/-! ### the cached traversal of the model, unfolded -/
+
+theorem erecC_hit (c : ECtx α) (cache : List (Path × α)) (n : Node α) (path : Path) (d : DrawSt α)
+    (v : α) (h : cacheGet cache path = some v) : erecC c cache n path d = (v, [], d) := by
+  cases n <;> simp only [erecC, h]
+
+theorem erecC_term (c : ECtx α) (cache : List (Path × α)) (p : α) (path : Path) (d : DrawSt α)
+    (h : cacheGet cache path = none) :
+    erecC c cache (.term p) path d = (if c.first then p else -p, [], d) := by
+  simp only [erecC, h]
+
+theorem erecC_chance (c : ECtx α) (cache : List (Path × α)) (i : Nat) (ks : List (Node α))
+    (path : Path) (d : DrawSt α) (h : cacheGet cache path = none) :
+    erecC c cache (.chance i ks) path d =
+      erecCNth c cache ks (sampleChance c.draw c.chancePass (c.ch.getD i []) i d).1
+        (path ++ [(sampleChance c.draw c.chancePass (c.ch.getD i []) i d).1])
+        (sampleChance c.draw c.chancePass (c.ch.getD i []) i d).2 := by
+  simp only [erecC, h]
+
+theorem erecC_own (c : ECtx α) (cache : List (Path × α)) (one : Bool) (i : Nat)
+    (ks : List (Node α)) (path : Path) (d : DrawSt α) (h : cacheGet cache path = none)
+    (ho : (one == c.first) = true) :
+    erecC c cache (.player one i ks) path d =
+      ((erecCActs c cache one i (c.strat one i) ks path d 0 0).1,
+       (erecCActs c cache one i (c.strat one i) ks path d 0 0).2.1 ++
+         subEffsE one i (erecCActs c cache one i (c.strat one i) ks path d 0 0).1
+           (c.strat one i).length,
+       (erecCActs c cache one i (c.strat one i) ks path d 0 0).2.2) := by
+  simp only [erecC, h, if_pos ho]
+
+theorem erecC_opp (c : ECtx α) (cache : List (Path × α)) (one : Bool) (i : Nat)
+    (ks : List (Node α)) (path : Path) (d : DrawSt α) (h : cacheGet cache path = none)
+    (ho : ¬ (one == c.first) = true) :
+    erecC c cache (.player one i ks) path d =
+      ((erecCNth c cache ks
+          (samplePlayer c.draw (if one then 1 else 2) c.playerPass (c.strat one i) i d).1
+          (path ++ [(samplePlayer c.draw (if one then 1 else 2) c.playerPass (c.strat one i) i d).1])
+          (samplePlayer c.draw (if one then 1 else 2) c.playerPass (c.strat one i) i d).2).1,
+       extStratEffs one i (c.strat one i) 0 ++
+        (erecCNth c cache ks
+          (samplePlayer c.draw (if one then 1 else 2) c.playerPass (c.strat one i) i d).1
+          (path ++ [(samplePlayer c.draw (if one then 1 else 2) c.playerPass (c.strat one i) i d).1])
+          (samplePlayer c.draw (if one then 1 else 2) c.playerPass (c.strat one i) i d).2).2.1,
+       (erecCNth c cache ks
+          (samplePlayer c.draw (if one then 1 else 2) c.playerPass (c.strat one i) i d).1
+          (path ++ [(samplePlayer c.draw (if one then 1 else 2) c.playerPass (c.strat one i) i d).1])
+          (samplePlayer c.draw (if one then 1 else 2) c.playerPass (c.strat one i) i d).2).2.2) := by
+  simp only [erecC, h, if_neg ho]
+
+theorem erecCActs_cons_eq (c : ECtx α) (cache : List (Path × α)) (one : Bool) (j : Nat) (s : α)
+    (σ : List α) (k : Node α) (ks : List (Node α)) (path : Path) (d : DrawSt α) (a : Nat) (ex : α) :
+    erecCActs c cache one j (s :: σ) (k :: ks) path d a ex =
+      ((erecCActs c cache one j σ ks path (erecC c cache k (path ++ [a]) d).2.2 (a + 1)
+          (ex + s * (erecC c cache k (path ++ [a]) d).1)).1,
+       (erecC c cache k (path ++ [a]) d).2.1 ++
+         ⟨one, j, .regret, a, (erecC c cache k (path ++ [a]) d).1⟩ ::
+         (erecCActs c cache one j σ ks path (erecC c cache k (path ++ [a]) d).2.2 (a + 1)
+          (ex + s * (erecC c cache k (path ++ [a]) d).1)).2.1,
+       (erecCActs c cache one j σ ks path (erecC c cache k (path ++ [a]) d).2.2 (a + 1)
+          (ex + s * (erecC c cache k (path ++ [a]) d).1)).2.2) := by
+  simp only [erecCActs]
+
+/-! ### consistent draw states -/
+
+/-- every cached sample is the oracle's answer -/
+def ECons (c : ECtx α) (d : DrawSt α) : Prop :=
+  (∀ i k, assocGet d.chance i = some k → k = c.oc i) ∧
+  (∀ i k, assocGet d.player i = some k → k = c.op i)
+
+/-- serve one sample request -/
+def DrawSt.req (c : ECtx α) (d : DrawSt α) : EReq → DrawSt α
+  | .ch i => (sampleChance c.draw c.chancePass (c.ch.getD i []) i d).2
+  | .pl i => (samplePlayer c.draw (if !c.first then 1 else 2) c.playerPass (c.strat (!c.first) i) i d).2
+
+def DrawSt.run (c : ECtx α) (d : DrawSt α) (rs : List EReq) : DrawSt α := rs.foldl (DrawSt.req c) d
+
+theorem DrawSt.req_ch (c : ECtx α) (d : DrawSt α) (i : Nat) :
+    (sampleChance c.draw c.chancePass (c.ch.getD i []) i d).2 = d.req c (.ch i) := rfl
+theorem DrawSt.req_pl (c : ECtx α) (d : DrawSt α) (i : Nat) :
+    (samplePlayer c.draw (if !c.first then 1 else 2) c.playerPass (c.strat (!c.first) i) i d).2
+      = d.req c (.pl i) := rfl
+
+@[simp] theorem DrawSt.run_nil (c : ECtx α) (d : DrawSt α) : d.run c [] = d := rfl
+@[simp] theorem DrawSt.run_cons (c : ECtx α) (d : DrawSt α) (r : EReq) (rs : List EReq) :
+    d.run c (r :: rs) = (d.req c r).run c rs := rfl
+theorem DrawSt.run_append (c : ECtx α) (d : DrawSt α) (a b : List EReq) :
+    d.run c (a ++ b) = (d.run c a).run c b := by
+  simp [DrawSt.run, List.foldl_append]
+
+theorem EassocGet_cons (a b : Nat) (l : List (Nat × Nat)) (j : Nat) :
+    assocGet ((a, b) :: l) j = if a = j then some b else assocGet l j := by
+  unfold assocGet
+  by_cases hj : a = j
+  · simp [hj]
+  · simp [hj]
+
+theorem ECons.sampleChance_fst {c : ECtx α} {d : DrawSt α} (h : ECons c d) (i : Nat) :
+    (sampleChance c.draw c.chancePass (c.ch.getD i []) i d).1 = c.oc i := by
+  cases hc : assocGet d.chance i with
+  | some k => simp only [sampleChance, hc]; exact h.1 i k hc
+  | none => simp only [sampleChance, hc]; rfl
+
+theorem ECons.samplePlayer_fst {c : ECtx α} {d : DrawSt α} (h : ECons c d) (i : Nat) :
+    (samplePlayer c.draw (if !c.first then 1 else 2) c.playerPass (c.strat (!c.first) i) i d).1
+      = c.op i := by
+  cases hc : assocGet d.player i with
+  | some k => simp only [samplePlayer, hc]; exact h.2 i k hc
+  | none => simp only [samplePlayer, hc]; rfl
+
+theorem ECons.req {c : ECtx α} {d : DrawSt α} (h : ECons c d) (r : EReq) : ECons c (d.req c r) := by
+  cases r with
+  | ch i =>
+    cases hc : assocGet d.chance i with
+    | some k => simp only [DrawSt.req, sampleChance, hc]; exact h
+    | none =>
+      simp only [DrawSt.req, sampleChance, hc]
+      refine ⟨fun j k hj => ?_, h.2⟩
+      rw [EassocGet_cons] at hj
+      by_cases hij : i = j
+      · rw [if_pos hij] at hj; subst hij; exact (Option.some.inj hj).symm
+      · rw [if_neg hij] at hj; exact h.1 j k hj
+  | pl i =>
+    cases hc : assocGet d.player i with
+    | some k => simp only [DrawSt.req, samplePlayer, hc]; exact h
+    | none =>
+      simp only [DrawSt.req, samplePlayer, hc]
+      refine ⟨h.1, fun j k hj => ?_⟩
+      rw [EassocGet_cons] at hj
+      by_cases hij : i = j
+      · rw [if_pos hij] at hj; subst hij; exact (Option.some.inj hj).symm
+      · rw [if_neg hij] at hj; exact h.2 j k hj
+
+theorem ECons.run {c : ECtx α} {d : DrawSt α} (h : ECons c d) (rs : List EReq) :
+    ECons c (d.run c rs) := by
+  induction rs generalizing d with
+  | nil => exact h
+  | cons r rs ih => exact ih (h.req r)
+
+theorem ECons.init (c : ECtx α) (log : List (DrawRec α)) : ECons c { log := log } :=
+  ⟨fun i k h => by simp [assocGet] at h, fun i k h => by simp [assocGet] at h⟩
+
+theorem opp_eq_not_first {c : ECtx α} {one : Bool} (h : ¬ (one == c.first) = true) :
+    one = !c.first := by
+  cases one <;> cases hf : c.first <;> simp_all
+
+/-! ### the model's traversals are the pure one plus cache bookkeeping -/
+
+mutual
+theorem erecC_pure (c : ECtx α) (cache : List (Path × α)) :
+    ∀ (n : Node α) (path : Path) (d : DrawSt α), ECons c d →
+      erecC c cache n path d = ((precC c cache n path).1, effsOf (precC c cache n path).2,
+        d.run c (reqsOf (precC c cache n path).2))
+  | n, path, d, hd => by
+    cases hc : cacheGet cache path with
+    | some v => rw [erecC_hit _ _ _ _ _ v hc, precC_hit _ _ _ _ v hc]; rfl
+    | none =>
+      match n with
+      | .term p => rw [erecC_term _ _ _ _ _ hc, precC_term _ _ _ _ hc]; rfl
+      | .chance i ks =>
+        rw [erecC_chance _ _ _ _ _ _ hc, precC_chance _ _ _ _ _ hc, hd.sampleChance_fst i,
+          DrawSt.req_ch, erecCNth_pure c cache ks (c.oc i) (path ++ [c.oc i]) _ (hd.req (.ch i))]
+        simp only [reqsOf_cons_req, effsOf_cons_req, DrawSt.run_cons]
+      | .player one i ks =>
+        by_cases ho : (one == c.first) = true
+        · rw [erecC_own _ _ _ _ _ _ _ hc ho, precC_own _ _ _ _ _ _ hc ho,
+            erecCActs_pure c cache one i (c.strat one i) ks path d 0 0 hd]
+          simp only [effsOf_append, effsOf_map_eff, reqsOf_append, reqsOf_map_eff, List.append_nil]
+        · rw [erecC_opp _ _ _ _ _ _ _ hc ho, precC_opp _ _ _ _ _ _ hc ho]
+          have hone := opp_eq_not_first ho
+          subst hone
+          rw [hd.samplePlayer_fst i, DrawSt.req_pl,
+            erecCNth_pure c cache ks (c.op i) (path ++ [c.op i]) _ (hd.req (.pl i))]
+          simp only [reqsOf_cons_req, effsOf_cons_req, DrawSt.run_cons, effsOf_append,
+            effsOf_map_eff, reqsOf_append, reqsOf_map_eff, List.nil_append]
+theorem erecCNth_pure (c : ECtx α) (cache : List (Path × α)) :
+    ∀ (ks : List (Node α)) (j : Nat) (path : Path) (d : DrawSt α), ECons c d →
+      erecCNth c cache ks j path d = ((precCNth c cache ks j path).1,
+        effsOf (precCNth c cache ks j path).2, d.run c (reqsOf (precCNth c cache ks j path).2))
+  | [], _, _, d, _ => by simp only [erecCNth, precCNth]; rfl
+  | k :: _, 0, path, d, hd => by
+    simp only [erecCNth, precCNth]; exact erecC_pure c cache k path d hd
+  | _ :: ks, j + 1, path, d, hd => by
+    simp only [erecCNth, precCNth]; exact erecCNth_pure c cache ks j path d hd
+theorem erecCActs_pure (c : ECtx α) (cache : List (Path × α)) (one : Bool) (i : Nat) :
+    ∀ (σ : List α) (ks : List (Node α)) (path : Path) (d : DrawSt α) (a : Nat) (ex : α),
+      ECons c d →
+      erecCActs c cache one i σ ks path d a ex = ((precCActs c cache one i σ ks path a ex).1,
+        effsOf (precCActs c cache one i σ ks path a ex).2,
+        d.run c (reqsOf (precCActs c cache one i σ ks path a ex).2))
+  | s :: σ, k :: ks, path, d, a, ex, hd => by
+    rw [erecCActs_cons_eq, precCActs_cons, erecC_pure c cache k (path ++ [a]) d hd]
+    simp only
+    rw [erecCActs_pure c cache one i σ ks path _ (a + 1) _ (hd.run _)]
+    simp only [effsOf_append, effsOf_cons_eff, reqsOf_append, reqsOf_cons_eff, DrawSt.run_append]
+  | [], _, _, d, _, _, _ => by simp only [erecCActs, precCActs]; rfl
+  | _ :: _, [], _, d, _, _, _ => by simp only [erecCActs, precCActs]; rfl
+end
+
+theorem cacheGet_nil (p : Path) : cacheGet ([] : List (Path × α)) p = none := rfl
+
+mutual
+theorem erec_eq_erecC (c : ECtx α) :
+    ∀ (n : Node α) (path : Path) (d : DrawSt α), erecC c [] n path d = erec c n d
+  | .term p, path, d => by rw [erecC_term _ _ _ _ _ (cacheGet_nil _)]; simp only [erec]
+  | .chance i ks, path, d => by
+    rw [erecC_chance _ _ _ _ _ _ (cacheGet_nil _), erec_chance_eq]
+    exact erecNth_eq_erecCNth c ks _ _ _
+  | .player one i ks, path, d => by
+    by_cases ho : (one == c.first) = true
+    · rw [erecC_own _ _ _ _ _ _ _ (cacheGet_nil _) ho, erec_own_eq _ _ _ _ _ ho,
+        erecActs_eq_erecCActs c one i _ ks path d 0 0]
+    · rw [erecC_opp _ _ _ _ _ _ _ (cacheGet_nil _) ho, erec_opp_eq _ _ _ _ _ ho,
+        erecNth_eq_erecCNth c ks _ _ _]
+theorem erecNth_eq_erecCNth (c : ECtx α) :
+    ∀ (ks : List (Node α)) (j : Nat) (path : Path) (d : DrawSt α),
+      erecCNth c [] ks j path d = erecNth c ks j d
+  | [], _, _, d => by simp only [erecCNth, erecNth]
+  | k :: _, 0, path, d => by simp only [erecCNth, erecNth]; exact erec_eq_erecC c k path d
+  | _ :: ks, j + 1, path, d => by
+    simp only [erecCNth, erecNth]; exact erecNth_eq_erecCNth c ks j path d
+theorem erecActs_eq_erecCActs (c : ECtx α) (one : Bool) (i : Nat) :
+    ∀ (σ : List α) (ks : List (Node α)) (path : Path) (d : DrawSt α) (a : Nat) (ex : α),
+      erecCActs c [] one i σ ks path d a ex = erecActs c one i σ ks d a ex
+  | s :: σ, k :: ks, path, d, a, ex => by
+    rw [erecCActs_cons_eq, erecActs_cons_eq, erec_eq_erecC c k (path ++ [a]) d,
+      erecActs_eq_erecCActs c one i σ ks path _ (a + 1) _]
+  | [], _, _, d, _, _ => by simp only [erecCActs, erecActs]
+  | _ :: _, [], _, d, _, _ => by simp only [erecCActs, erecActs]
+end
+
+/-! ### the payoff cache -/
+
+theorem cacheGet_eq_none_iff (cache : List (Path × α)) (q : Path) :
+    cacheGet cache q = none ↔ ∀ e ∈ cache, e.1 ≠ q := by
+  unfold cacheGet
+  simp [List.find?_eq_none]
+
+theorem cacheGet_snoc_ne (cache : List (Path × α)) (P q : Path) (v : α) (h : q ≠ P) :
+    cacheGet (cache ++ [(P, v)]) q = cacheGet cache q := by
+  unfold cacheGet
+  rw [List.find?_append]
+  cases hf : List.find? (fun e => e.1 == q) cache with
+  | some x => simp
+  | none =>
+    have : ¬ P = q := fun h' => h h'.symm
+    simp [this]
+
+theorem cacheGet_snoc_self (cache : List (Path × α)) (P : Path) (v : α)
+    (h : cacheGet cache P = none) : cacheGet (cache ++ [(P, v)]) P = some v := by
+  unfold cacheGet at h ⊢
+  rw [List.find?_append]
+  cases hf : List.find? (fun e => e.1 == P) cache with
+  | some x => rw [hf] at h; simp at h
+  | none => simp
+
+/-! the cached traversal of a subtree only looks at cached paths below the subtree's path -/
+mutual
+theorem precC_congr (c : ECtx α) (c1 c2 : List (Path × α)) :
+    ∀ (n : Node α) (path : Path), (∀ q, path <+: q → cacheGet c1 q = cacheGet c2 q) →
+      precC c c1 n path = precC c c2 n path
+  | n, path, h => by
+    have hp := h path (List.prefix_refl _)
+    cases hc : cacheGet c2 path with
+    | some v => rw [precC_hit _ _ _ _ v hc, precC_hit _ _ _ _ v (hp.trans hc)]
+    | none =>
+      have hc1 := hp.trans hc
+      match n with
+      | .term p => rw [precC_term _ _ _ _ hc, precC_term _ _ _ _ hc1]
+      | .chance i ks =>
+        rw [precC_chance _ _ _ _ _ hc, precC_chance _ _ _ _ _ hc1,
+          precCNth_congr c c1 c2 ks (c.oc i) (path ++ [c.oc i])
+            (fun q hq => h q ((List.prefix_append _ _).trans hq))]
+      | .player one i ks =>
+        by_cases ho : (one == c.first) = true
+        · rw [precC_own _ _ _ _ _ _ hc ho, precC_own _ _ _ _ _ _ hc1 ho,
+            precCActs_congr c c1 c2 one i (c.strat one i) ks path 0 0 h]
+        · rw [precC_opp _ _ _ _ _ _ hc ho, precC_opp _ _ _ _ _ _ hc1 ho,
+            precCNth_congr c c1 c2 ks (c.op i) (path ++ [c.op i])
+              (fun q hq => h q ((List.prefix_append _ _).trans hq))]
+theorem precCNth_congr (c : ECtx α) (c1 c2 : List (Path × α)) :
+    ∀ (ks : List (Node α)) (j : Nat) (path : Path),
+      (∀ q, path <+: q → cacheGet c1 q = cacheGet c2 q) →
+      precCNth c c1 ks j path = precCNth c c2 ks j path
+  | [], _, _, _ => by simp only [precCNth]
+  | k :: _, 0, path, h => by simp only [precCNth]; exact precC_congr c c1 c2 k path h
+  | _ :: ks, j + 1, path, h => by simp only [precCNth]; exact precCNth_congr c c1 c2 ks j path h
+theorem precCActs_congr (c : ECtx α) (c1 c2 : List (Path × α)) (one : Bool) (i : Nat) :
+    ∀ (σ : List α) (ks : List (Node α)) (path : Path) (a : Nat) (ex : α),
+      (∀ q, path <+: q → cacheGet c1 q = cacheGet c2 q) →
+      precCActs c c1 one i σ ks path a ex = precCActs c c2 one i σ ks path a ex
+  | s :: σ, k :: ks, path, a, ex, h => by
+    rw [precCActs_cons, precCActs_cons,
+      precC_congr c c1 c2 k (path ++ [a]) (fun q hq => h q ((List.prefix_append _ _).trans hq)),
+      precCActs_congr c c1 c2 one i σ ks path (a + 1) _ h]
+  | [], _, _, _, _, _ => by simp only [precCActs]
+  | _ :: _, [], _, _, _, _ => by simp only [precCActs]
+end
+
+theorem precCNth_get (c : ECtx α) (cache : List (Path × α)) :
+    ∀ (ks : List (Node α)) (j : Nat) (k : Node α) (q : Path), ks[j]? = some k →
+      precCNth c cache ks j q = precC c cache k q
+  | [], _, _, _, h => by simp at h
+  | k0 :: _, 0, k, q, h => by
+    simp only [List.getElem?_cons_zero, Option.some.injEq] at h
+    subst h; simp only [precCNth]
+  | _ :: ks, j + 1, k, q, h => by
+    simp only [List.getElem?_cons_succ] at h
+    simp only [precCNth]; exact precCNth_get c cache ks j k q h
+
+/-! ### the sampled tree -/
+
+/-- `OnT c n rel m` : the traversal of `n` reaches its descendant `m` along the relative path
+`rel` (oracle's outcome at chance nodes, oracle's action at the opponent's nodes, any action with
+a strategy entry at the updating player's nodes) -/
+inductive OnT (c : ECtx α) : Node α → Path → Node α → Prop
+  | here (n : Node α) : OnT c n [] n
+  | chance (i : Nat) (ks : List (Node α)) (k : Node α) (rel : Path) (m : Node α) :
+      ks[c.oc i]? = some k → OnT c k rel m → OnT c (.chance i ks) (c.oc i :: rel) m
+  | own (one : Bool) (i : Nat) (ks : List (Node α)) (a : Nat) (k : Node α) (rel : Path) (m : Node α) :
+      (one == c.first) = true → a < (c.strat one i).length → ks[a]? = some k → OnT c k rel m →
+      OnT c (.player one i ks) (a :: rel) m
+  | opp (one : Bool) (i : Nat) (ks : List (Node α)) (k : Node α) (rel : Path) (m : Node α) :
+      ¬ (one == c.first) = true → ks[c.op i]? = some k → OnT c k rel m →
+      OnT c (.player one i ks) (c.op i :: rel) m
+
+theorem OnT.trans {c : ECtx α} {a b e : Node α} {r1 r2 : Path} (h1 : OnT c a r1 b)
+    (h2 : OnT c b r2 e) : OnT c a (r1 ++ r2) e := by
+  induction h1 with
+  | here n => exact h2
+  | chance i ks k rel m hk _ ih => exact OnT.chance i ks k _ _ hk (ih h2)
+  | own one i ks a k rel m ho ha hk _ ih => exact OnT.own one i ks a k _ _ ho ha hk (ih h2)
+  | opp one i ks k rel m ho hk _ ih => exact OnT.opp one i ks k _ _ ho hk (ih h2)
+
+/-! ### adding one cut node to the cache -/
+
+theorem perm_mid {β : Type} {A' A X : List β} (S : List β) (h : (A' ++ X).Perm A) :
+    ((A' ++ S) ++ X).Perm (A ++ S) := by
+  have h1 : ((A' ++ S) ++ X).Perm ((A' ++ X) ++ S) := by
+    rw [List.append_assoc, List.append_assoc]
+    exact List.Perm.append_left _ List.perm_append_comm
+  exact h1.trans (h.append_right S)
+
+theorem perm_rot {β : Type} (A B C : List β) : (A ++ (B ++ C)).Perm ((A ++ C) ++ B) := by
+  rw [List.append_assoc]
+  exact List.Perm.append_left _ List.perm_append_comm
+
+theorem precCActs_rest_eq (c : ECtx α) (c1 c2 : List (Path × α)) (one : Bool) (i : Nat)
+    (path : Path) :
+    ∀ (σ : List α) (ks : List (Node α)) (a0 : Nat) (ex : α),
+      (∀ a', a0 ≤ a' → ∀ k', precC c c1 k' (path ++ [a']) = precC c c2 k' (path ++ [a'])) →
+      precCActs c c1 one i σ ks path a0 ex = precCActs c c2 one i σ ks path a0 ex
+  | s :: σ, k :: ks, a0, ex, h => by
+    rw [precCActs_cons, precCActs_cons, h a0 (le_refl _) k,
+      precCActs_rest_eq c c1 c2 one i path σ ks (a0 + 1) _ (fun a' ha' => h a' (by omega))]
+  | [], _, _, _, _ => by simp only [precCActs]
+  | _ :: _, [], _, _, _ => by simp only [precCActs]
+
+theorem precCActs_add_item (c : ECtx α) (c1 c2 : List (Path × α)) (one : Bool) (i : Nat)
+    (path : Path) (X : List (EEv α)) (a : Nat) (k : Node α)
+    (hk1 : (precC c c1 k (path ++ [a])).1 = (precC c c2 k (path ++ [a])).1)
+    (hk2 : ((precC c c1 k (path ++ [a])).2 ++ X).Perm (precC c c2 k (path ++ [a])).2)
+    (hother : ∀ a', a' ≠ a → ∀ k', precC c c1 k' (path ++ [a']) = precC c c2 k' (path ++ [a'])) :
+    ∀ (σ : List α) (ks : List (Node α)) (a0 : Nat) (ex : α), a0 ≤ a → ks[a - a0]? = some k →
+      a - a0 < σ.length →
+      (precCActs c c1 one i σ ks path a0 ex).1 = (precCActs c c2 one i σ ks path a0 ex).1 ∧
+      ((precCActs c c1 one i σ ks path a0 ex).2 ++ X).Perm (precCActs c c2 one i σ ks path a0 ex).2
+  | [], _, a0, ex, _, _, hl => absurd hl (by simp)
+  | _ :: _, [], a0, ex, _, hk, _ => by simp at hk
+  | s :: σ, k0 :: ks, a0, ex, hle, hk, hl => by
+    rw [precCActs_cons, precCActs_cons]
+    by_cases ha : a0 = a
+    · subst ha
+      simp only [Nat.sub_self, List.getElem?_cons_zero, Option.some.injEq] at hk
+      subst hk
+      rw [hk1, precCActs_rest_eq c c1 c2 one i path σ ks (a0 + 1) _
+        (fun a' ha' k' => hother a' (by omega) k')]
+      exact ⟨rfl, perm_mid _ hk2⟩
+    · have hlt : a0 < a := by omega
+      rw [hother a0 ha k0]
+      have hidx : a - a0 = (a - (a0 + 1)) + 1 := by omega
+      rw [hidx, List.getElem?_cons_succ] at hk
+      have hl' : a - (a0 + 1) < σ.length := by
+        simp only [List.length_cons] at hl; omega
+      obtain ⟨ih1, ih2⟩ := precCActs_add_item c c1 c2 one i path X a k hk1 hk2 hother σ ks
+        (a0 + 1) (ex + s * (precC c c2 k0 (path ++ [a0])).1) (by omega) hk hl'
+      refine ⟨ih1, ?_⟩
+      rw [List.append_assoc, List.cons_append]
+      exact List.Perm.append_left _ (List.Perm.cons _ ih2)
+
+/-- **one cut node**: caching the node `m` reached on the sampled tree at path `P` (with the
+value the traversal returns there) removes exactly the events of `m`'s traversal and keeps the
+value — provided no cached path is a prefix or an extension of `P` -/
+theorem precC_add_item (c : ECtx α) (cache : List (Path × α)) (P : Path) (v : α) {n : Node α}
+    {rel : Path} {m : Node α} (h : OnT c n rel m) :
+    ∀ p, P = p ++ rel → (∀ q, q <+: P → cacheGet cache q = none) →
+      (∀ q, P <+: q → cacheGet cache q = none) → v = (precC c [] m P).1 →
+      (precC c (cache ++ [(P, v)]) n p).1 = (precC c cache n p).1 ∧
+      ((precC c (cache ++ [(P, v)]) n p).2 ++ (precC c [] m P).2).Perm (precC c cache n p).2 := by
+  induction h with
+  | here n =>
+    intro p hP h1 h2 hv
+    simp only [List.append_nil] at hP
+    subst hP
+    rw [precC_hit _ _ _ _ v (cacheGet_snoc_self _ _ _ (h1 P (List.prefix_refl _))),
+      precC_congr c cache [] n P (fun q hq => (h2 q hq).trans (cacheGet_nil q).symm)]
+    exact ⟨hv, by simp⟩
+  | chance i ks k rel m hk hsub ih =>
+    intro p hP h1 h2 hv
+    have hne : p ≠ P := by
+      rw [hP]; intro h; have := congrArg List.length h; simp at this
+    have hnone : cacheGet cache p = none := h1 p (by rw [hP]; exact List.prefix_append _ _)
+    have hnone' : cacheGet (cache ++ [(P, v)]) p = none := by
+      rw [cacheGet_snoc_ne _ _ _ _ hne]; exact hnone
+    rw [precC_chance _ _ _ _ _ hnone, precC_chance _ _ _ _ _ hnone',
+      precCNth_get _ _ _ _ _ _ hk, precCNth_get _ _ _ _ _ _ hk]
+    obtain ⟨i1, i2⟩ := ih (p ++ [c.oc i]) (by rw [hP]; simp) h1 h2 hv
+    exact ⟨i1, by rw [List.cons_append]; exact List.Perm.cons _ i2⟩
+  | own one i ks a k rel m ho ha hk hsub ih =>
+    intro p hP h1 h2 hv
+    have hne : p ≠ P := by
+      rw [hP]; intro h; have := congrArg List.length h; simp at this
+    have hnone : cacheGet cache p = none := h1 p (by rw [hP]; exact List.prefix_append _ _)
+    have hnone' : cacheGet (cache ++ [(P, v)]) p = none := by
+      rw [cacheGet_snoc_ne _ _ _ _ hne]; exact hnone
+    rw [precC_own _ _ _ _ _ _ hnone ho, precC_own _ _ _ _ _ _ hnone' ho]
+    obtain ⟨i1, i2⟩ := ih (p ++ [a]) (by rw [hP]; simp) h1 h2 hv
+    have hother : ∀ a', a' ≠ a → ∀ k', precC c (cache ++ [(P, v)]) k' (p ++ [a'])
+        = precC c cache k' (p ++ [a']) := by
+      intro a' ha' k'
+      refine precC_congr _ _ _ k' _ (fun q hq => cacheGet_snoc_ne _ _ _ _ ?_)
+      intro hqP
+      subst hqP
+      rw [hP, List.prefix_append_right_inj, List.cons_prefix_cons] at hq
+      exact ha' hq.1
+    obtain ⟨j1, j2⟩ := precCActs_add_item c _ _ one i p _ a k i1 i2 hother (c.strat one i) ks 0 0
+      (Nat.zero_le _) (by simpa using hk) (by simpa using ha)
+    rw [j1]
+    exact ⟨rfl, perm_mid _ j2⟩
+  | opp one i ks k rel m ho hk hsub ih =>
+    intro p hP h1 h2 hv
+    have hne : p ≠ P := by
+      rw [hP]; intro h; have := congrArg List.length h; simp at this
+    have hnone : cacheGet cache p = none := h1 p (by rw [hP]; exact List.prefix_append _ _)
+    have hnone' : cacheGet (cache ++ [(P, v)]) p = none := by
+      rw [cacheGet_snoc_ne _ _ _ _ hne]; exact hnone
+    rw [precC_opp _ _ _ _ _ _ hnone ho, precC_opp _ _ _ _ _ _ hnone' ho,
+      precCNth_get _ _ _ _ _ _ hk, precCNth_get _ _ _ _ _ _ hk]
+    obtain ⟨i1, i2⟩ := ih (p ++ [c.op i]) (by rw [hP]; simp) h1 h2 hv
+    refine ⟨i1, ?_⟩
+    rw [List.cons_append, List.append_assoc]
+    exact (List.Perm.append_left _ i2).cons _
+
+/-! ### a whole cut -/
+
+/-- neither path is a prefix of the other -/
+def ApartP (p q : Path) : Prop := ¬ p <+: q ∧ ¬ q <+: p
+
+theorem ApartP.symm {p q : Path} (h : ApartP p q) : ApartP q p := ⟨h.2, h.1⟩
+
+/-- the cache entry a task leaves for its node -/
+abbrev EItem.val (c : ECtx α) (it : EItem α) : Path × α :=
+  (it.path, (precC c [] it.node it.path).1)
+/-- the events of a task -/
+abbrev EItem.evs (c : ECtx α) (it : EItem α) : List (EEv α) := (precC c [] it.node it.path).2
+
+/-- **decomposition along a cut**: caching all nodes of a set of pairwise unrelated nodes of the
+sampled tree removes exactly the events of the traversals of these nodes, and keeps the value -/
+theorem precC_add_items (c : ECtx α) (root : Node α) :
+    ∀ (items : List (EItem α)) (cache0 : List (Path × α)),
+      (∀ it ∈ items, OnT c root it.path it.node) →
+      items.Pairwise (fun x y => ApartP x.path y.path) →
+      (∀ it ∈ items, ∀ e ∈ cache0, ApartP e.1 it.path) →
+      (precC c (cache0 ++ items.map (EItem.val c)) root []).1 = (precC c cache0 root []).1 ∧
+      ((precC c (cache0 ++ items.map (EItem.val c)) root []).2 ++
+          items.flatMap (EItem.evs c)).Perm (precC c cache0 root []).2
+  | [], cache0, _, _, _ => by simp
+  | x :: rest, cache0, hon, hpw, hc => by
+    rw [List.map_cons, List.flatMap_cons]
+    have hcache : cache0 ++ EItem.val c x :: rest.map (EItem.val c)
+        = (cache0 ++ [EItem.val c x]) ++ rest.map (EItem.val c) := by simp
+    rw [hcache]
+    obtain ⟨hx, hrest⟩ := List.pairwise_cons.mp hpw
+    obtain ⟨i1, i2⟩ := precC_add_items c root rest (cache0 ++ [EItem.val c x])
+      (fun it h => hon it (List.mem_cons_of_mem _ h)) hrest (by
+        intro it hit e he
+        rcases List.mem_append.mp he with he | he
+        · exact hc it (List.mem_cons_of_mem _ hit) e he
+        · rw [List.mem_singleton] at he; subst he; exact hx it hit)
+    have hxm : x ∈ x :: rest := List.mem_cons_self
+    obtain ⟨a1, a2⟩ := precC_add_item c cache0 x.path (precC c [] x.node x.path).1 (hon x hxm) []
+      (by simp)
+      (fun q hq => (cacheGet_eq_none_iff _ _).2 fun e he heq => (hc x hxm e he).1 (heq ▸ hq))
+      (fun q hq => (cacheGet_eq_none_iff _ _).2 fun e he heq => (hc x hxm e he).2 (heq ▸ hq))
+      rfl
+    refine ⟨i1.trans a1, ?_⟩
+    have h3 : ((precC c (cache0 ++ [EItem.val c x] ++ rest.map (EItem.val c)) root []).2 ++
+        (EItem.evs c x ++ rest.flatMap (EItem.evs c))).Perm
+        (((precC c (cache0 ++ [EItem.val c x] ++ rest.map (EItem.val c)) root []).2 ++
+          rest.flatMap (EItem.evs c)) ++ EItem.evs c x) := perm_rot _ _ _
+    exact h3.trans ((i2.append_right _).trans a2)
+
+theorem eRunTasks_cons_eq (c : ECtx α) (it : EItem α) (rest : List (EItem α)) (d : DrawSt α) :
+    eRunTasks c (it :: rest) d =
+      ((it.path, (erec c it.node d).1) :: (eRunTasks c rest (erec c it.node d).2.2).1,
+       (erec c it.node d).2.1 ++ (eRunTasks c rest (erec c it.node d).2.2).2.1,
+       (eRunTasks c rest (erec c it.node d).2.2).2.2) := by
+  simp only [eRunTasks]
+
+/-- the tasks: each runs the plain traversal of its node -/
+theorem eRunTasks_pure (c : ECtx α) :
+    ∀ (items : List (EItem α)) (d : DrawSt α), ECons c d →
+      eRunTasks c items d = (items.map (EItem.val c), effsOf (items.flatMap (EItem.evs c)),
+        d.run c (reqsOf (items.flatMap (EItem.evs c))))
+  | [], d, _ => by simp [eRunTasks]
+  | it :: rest, d, hd => by
+    have h1 : erec c it.node d = ((precC c [] it.node it.path).1,
+        effsOf (precC c [] it.node it.path).2, d.run c (reqsOf (precC c [] it.node it.path).2)) := by
+      rw [← erec_eq_erecC c it.node it.path d, erecC_pure c [] it.node it.path d hd]
+    rw [eRunTasks_cons_eq, h1]
+    simp only
+    rw [eRunTasks_pure c rest _ (hd.run _)]
+    simp only [List.map_cons, List.flatMap_cons, effsOf_append, reqsOf_append, DrawSt.run_append]
+
+/-! ### the breadth-first frontier is a cut of the sampled tree -/
+
+theorem apart_snoc (P : Path) {a b : Nat} (h : a ≠ b) : ApartP (P ++ [a]) (P ++ [b]) := by
+  constructor
+  · rw [List.prefix_append_right_inj, List.cons_prefix_cons]; exact fun h' => h h'.1
+  · rw [List.prefix_append_right_inj, List.cons_prefix_cons]; exact fun h' => h h'.1.symm
+
+theorem mem_eChildren (P : Path) :
+    ∀ (ks : List (Node α)) (a0 : Nat) (it : EItem α), it ∈ eChildren P ks a0 →
+      ∃ j, ks[j]? = some it.node ∧ it.path = P ++ [a0 + j]
+  | [], _, it, h => by simp [eChildren] at h
+  | k :: ks, a0, it, h => by
+    simp only [eChildren, List.mem_cons] at h
+    rcases h with h | h
+    · subst h; exact ⟨0, by simp, by simp⟩
+    · obtain ⟨j, hj, hp⟩ := mem_eChildren P ks (a0 + 1) it h
+      exact ⟨j + 1, by simpa using hj, by rw [hp]; congr 2; omega⟩
+
+theorem eChildren_pairwise (P : Path) :
+    ∀ (ks : List (Node α)) (a0 : Nat),
+      (eChildren P ks a0).Pairwise (fun x y => ApartP x.path y.path)
+  | [], _ => by simp [eChildren]
+  | k :: ks, a0 => by
+    simp only [eChildren, List.pairwise_cons]
+    refine ⟨fun y hy => ?_, eChildren_pairwise P ks (a0 + 1)⟩
+    obtain ⟨j, _, hp⟩ := mem_eChildren P ks (a0 + 1) y hy
+    rw [hp]
+    exact apart_snoc P (by omega)
+
+/-- a set of pairwise unrelated nodes of the sampled tree of `root` -/
+def ECut (c : ECtx α) (root : Node α) (l : List (EItem α)) : Prop :=
+  (∀ it ∈ l, OnT c root it.path it.node) ∧ l.Pairwise (fun x y => ApartP x.path y.path)
+
+theorem ECut.perm {c : ECtx α} {root : Node α} {l l' : List (EItem α)} (h : ECut c root l)
+    (hp : l.Perm l') : ECut c root l' :=
+  ⟨fun it hit => h.1 it (hp.symm.subset hit), h.2.perm hp (fun h => h.symm)⟩
+
+theorem ECut.tail {c : ECtx α} {root : Node α} {it : EItem α} {l : List (EItem α)}
+    (h : ECut c root (it :: l)) : ECut c root l :=
+  ⟨fun x hx => h.1 x (List.mem_cons_of_mem _ hx), (List.pairwise_cons.mp h.2).2⟩
+
+theorem ECut.expand {c : ECtx α} {root : Node α} {it : EItem α} {l : List (EItem α)}
+    (h : ECut c root (it :: l)) {P : Path} {one : Bool} {i : Nat} {ks : List (Node α)}
+    (hP : it.path <+: P) (hon : OnT c root P (.player one i ks)) (ho : (one == c.first) = true)
+    (hA : ks.length ≤ (c.strat one i).length) : ECut c root (eChildren P ks 0 ++ l) := by
+  obtain ⟨hit, hl⟩ := List.pairwise_cons.mp h.2
+  constructor
+  · intro x hx
+    rcases List.mem_append.mp hx with hx | hx
+    · obtain ⟨j, hj, hp⟩ := mem_eChildren P ks 0 x hx
+      rw [hp, Nat.zero_add]
+      have hjl : j < ks.length := (List.getElem?_eq_some_iff.mp hj).1
+      exact hon.trans (OnT.own one i ks j x.node [] x.node ho (by omega) hj (OnT.here _))
+    · exact h.1 x (List.mem_cons_of_mem _ hx)
+  · rw [List.pairwise_append]
+    refine ⟨eChildren_pairwise P ks 0, hl, fun x hx y hy => ?_⟩
+    obtain ⟨j, hj, hp⟩ := mem_eChildren P ks 0 x hx
+    have hity := hit y hy
+    have hPx : it.path <+: x.path := by rw [hp]; exact hP.trans (List.prefix_append _ _)
+    constructor
+    · intro hxy; exact hity.1 (hPx.trans hxy)
+    · intro hyx
+      rcases List.prefix_or_prefix_of_prefix hPx hyx with h' | h'
+      · exact hity.1 h'
+      · exact hity.2 h'
+
+/-- the requests made in a subtree of the sampled tree are requests of the whole traversal -/
+theorem onT_req_mem (c : ECtx α) {root : Node α} {P : Path} {m : Node α} (h : OnT c root P m)
+    (r : EReq) (hr : r ∈ reqsOf (precC c [] m P).2) : r ∈ reqsOf (precC c [] root []).2 := by
+  obtain ⟨-, h2⟩ := precC_add_item c [] P (precC c [] m P).1 h [] (by simp)
+    (fun q _ => cacheGet_nil q) (fun q _ => cacheGet_nil q) rfl
+  have h3 := (List.Perm.filterMap EEv.getReq h2).subset
+  apply h3
+  show r ∈ reqsOf _
+  rw [reqsOf_append]
+  exact List.mem_append_right _ hr
+
+theorem eNextNodes_zero (c : ECtx α) (n : Node α) (path : Path) (d : DrawSt α) :
+    eNextNodes c 0 n path d = (none, d) := by
+  simp only [eNextNodes]
+
+theorem eNextNodes_term (c : ECtx α) (fuel : Nat) (p : α) (path : Path) (d : DrawSt α) :
+    eNextNodes c (fuel + 1) (.term p) path d = (none, d) := by
+  simp only [eNextNodes]
+
+theorem eNextNodes_chance (c : ECtx α) (fuel : Nat) (i : Nat) (ks : List (Node α)) (path : Path)
+    (d : DrawSt α) :
+    eNextNodes c (fuel + 1) (.chance i ks) path d =
+      match ks[(sampleChance c.draw c.chancePass (c.ch.getD i []) i d).1]? with
+      | some n' => eNextNodes c fuel n'
+          (path ++ [(sampleChance c.draw c.chancePass (c.ch.getD i []) i d).1])
+          (sampleChance c.draw c.chancePass (c.ch.getD i []) i d).2
+      | none => (none, (sampleChance c.draw c.chancePass (c.ch.getD i []) i d).2) := by
+  simp only [eNextNodes]
+  rfl
+
+theorem eNextNodes_own (c : ECtx α) (fuel : Nat) (one : Bool) (i : Nat) (ks : List (Node α))
+    (path : Path) (d : DrawSt α) (ho : (one == c.first) = true) :
+    eNextNodes c (fuel + 1) (.player one i ks) path d = (some (eChildren path ks 0), d) := by
+  simp only [eNextNodes, if_pos ho]
+
+theorem eNextNodes_opp (c : ECtx α) (fuel : Nat) (one : Bool) (i : Nat) (ks : List (Node α))
+    (path : Path) (d : DrawSt α) (ho : ¬ (one == c.first) = true) :
+    eNextNodes c (fuel + 1) (.player one i ks) path d =
+      match ks[(samplePlayer c.draw (if one then 1 else 2) c.playerPass (c.strat one i) i d).1]? with
+      | some n' => eNextNodes c fuel n'
+          (path ++ [(samplePlayer c.draw (if one then 1 else 2) c.playerPass (c.strat one i) i d).1])
+          (samplePlayer c.draw (if one then 1 else 2) c.playerPass (c.strat one i) i d).2
+      | none => (none, (samplePlayer c.draw (if one then 1 else 2) c.playerPass (c.strat one i) i d).2) := by
+  simp only [eNextNodes, if_neg ho]
+  rfl
+
+/-- `next_nodes` walks down the sampled tree, makes only requests the plain traversal also makes,
+and returns the children of a node of the updating player -/
+theorem eNextNodes_spec (c : ECtx α) (root : Node α) :
+    ∀ (fuel : Nat) (n : Node α) (path : Path) (d : DrawSt α), ECons c d → OnT c root path n →
+      ∃ rs, (eNextNodes c fuel n path d).2 = d.run c rs ∧
+        (∀ r ∈ rs, r ∈ reqsOf (precC c [] root []).2) ∧
+        ∀ items, (eNextNodes c fuel n path d).1 = some items →
+          ∃ P one i ks, path <+: P ∧ OnT c root P (.player one i ks) ∧
+            (one == c.first) = true ∧ items = eChildren P ks 0
+  | 0, n, path, d, _, _ => by
+    rw [eNextNodes_zero]
+    exact ⟨[], rfl, fun _ h => absurd h List.not_mem_nil, fun _ h => by simp at h⟩
+  | fuel + 1, .term p, path, d, _, _ => by
+    rw [eNextNodes_term]
+    exact ⟨[], rfl, fun _ h => absurd h List.not_mem_nil, fun _ h => by simp at h⟩
+  | fuel + 1, .chance i ks, path, d, hd, hon => by
+    have hmem : EReq.ch i ∈ reqsOf (precC c [] root []).2 := by
+      refine onT_req_mem c hon _ ?_
+      rw [precC_chance _ _ _ _ _ (cacheGet_nil _)]
+      simp
+    rw [eNextNodes_chance, hd.sampleChance_fst i, DrawSt.req_ch]
+    cases hk : ks[c.oc i]? with
+    | none =>
+      exact ⟨[.ch i], rfl, fun r h => by rw [List.mem_singleton] at h; subst h; exact hmem,
+        fun _ h => by simp at h⟩
+    | some n' =>
+      simp only
+      have hon' : OnT c root (path ++ [c.oc i]) n' :=
+        hon.trans (OnT.chance i ks n' [] n' hk (OnT.here _))
+      obtain ⟨rs, h1, h2, h3⟩ := eNextNodes_spec c root fuel n' (path ++ [c.oc i]) _
+        (hd.req (.ch i)) hon'
+      refine ⟨.ch i :: rs, h1, ?_, ?_⟩
+      · intro r hr
+        rcases List.mem_cons.mp hr with h | h
+        · subst h; exact hmem
+        · exact h2 r h
+      · intro items hi
+        obtain ⟨P, one, j, ks', hp, rest⟩ := h3 items hi
+        exact ⟨P, one, j, ks', (List.prefix_append _ _).trans hp, rest⟩
+  | fuel + 1, .player one i ks, path, d, hd, hon => by
+    by_cases ho : (one == c.first) = true
+    · rw [eNextNodes_own _ _ _ _ _ _ _ ho]
+      refine ⟨[], rfl, fun _ h => absurd h List.not_mem_nil, fun items h => ?_⟩
+      simp only [Option.some.injEq] at h
+      exact ⟨path, one, i, ks, List.prefix_refl _, hon, ho, h.symm⟩
+    · have hmem : EReq.pl i ∈ reqsOf (precC c [] root []).2 := by
+        refine onT_req_mem c hon _ ?_
+        rw [precC_opp _ _ _ _ _ _ (cacheGet_nil _) ho]
+        simp
+      rw [eNextNodes_opp _ _ _ _ _ _ _ ho]
+      have hone := opp_eq_not_first ho
+      subst hone
+      rw [hd.samplePlayer_fst i, DrawSt.req_pl]
+      cases hk : ks[c.op i]? with
+      | none =>
+        exact ⟨[.pl i], rfl, fun r h => by rw [List.mem_singleton] at h; subst h; exact hmem,
+          fun _ h => by simp at h⟩
+      | some n' =>
+        simp only
+        have hon' : OnT c root (path ++ [c.op i]) n' :=
+          hon.trans (OnT.opp _ i ks n' [] n' ho hk (OnT.here _))
+        obtain ⟨rs, h1, h2, h3⟩ := eNextNodes_spec c root fuel n' (path ++ [c.op i]) _
+          (hd.req (.pl i)) hon'
+        refine ⟨.pl i :: rs, h1, ?_, ?_⟩
+        · intro r hr
+          rcases List.mem_cons.mp hr with h | h
+          · subst h; exact hmem
+          · exact h2 r h
+        · intro items hi
+          obtain ⟨P, one, j, ks', hp, rest⟩ := h3 items hi
+          exact ⟨P, one, j, ks', (List.prefix_append _ _).trans hp, rest⟩
+
+theorem eThreshold_succ (c : ECtx α) (target depth fuel : Nat) (queue work : List (EItem α))
+    (d : DrawSt α) :
+    eThreshold c target depth (fuel + 1) queue work d =
+      if (!(queue.isEmpty && work.isEmpty) && decide (queue.length + work.length < target)) = true then
+        match queue.getLast? with
+        | none => eThreshold c target depth fuel work queue d
+        | some it =>
+          match (eNextNodes c depth it.node it.path d).1 with
+          | some nexts => eThreshold c target depth fuel queue.dropLast (work ++ nexts)
+              (eNextNodes c depth it.node it.path d).2
+          | none => eThreshold c target depth fuel queue.dropLast work
+              (eNextNodes c depth it.node it.path d).2
+      else (queue, work, d) := by
+  rw [eThreshold]
+  split_ifs with h
+  · cases hq : queue.getLast? with
+    | none => rfl
+    | some it =>
+      simp only
+      rcases hN : eNextNodes c depth it.node it.path d with ⟨_ | nexts, d'⟩ <;> rfl
+  · rfl
+
+theorem EdropLast_append_getLast? {β : Type} : ∀ (l : List β) (a : β), l.getLast? = some a →
+    l.dropLast ++ [a] = l
+  | [], _, h => by simp at h
+  | [x], a, h => by simp at h; subst h; rfl
+  | x :: y :: l, a, h => by
+    rw [List.getLast?_cons_cons] at h
+    rw [List.dropLast_cons_cons, List.cons_append, EdropLast_append_getLast? (y :: l) a h]
+
+/-- **the frontier is a cut**: whatever `thread_threshold` returns (for every target, depth bound
+and fuel) is a set of pairwise unrelated nodes of the sampled tree, and the requests it made are
+requests of the plain traversal.  `hA`: a node of the updating player has at most as many
+children as its infoset has actions. -/
+theorem eThreshold_spec (c : ECtx α) (root : Node α) (target depth : Nat)
+    (hA : ∀ P one i ks, OnT c root P (.player one i ks) → (one == c.first) = true →
+      ks.length ≤ (c.strat one i).length) :
+    ∀ (fuel : Nat) (queue work : List (EItem α)) (d : DrawSt α), ECons c d →
+      ECut c root (queue ++ work) →
+      ∃ rs, (eThreshold c target depth fuel queue work d).2.2 = d.run c rs ∧
+        (∀ r ∈ rs, r ∈ reqsOf (precC c [] root []).2) ∧
+        ECut c root ((eThreshold c target depth fuel queue work d).1 ++
+          (eThreshold c target depth fuel queue work d).2.1)
+  | 0, queue, work, d, _, hcut => by
+    simp only [eThreshold]
+    exact ⟨[], rfl, fun _ h => absurd h List.not_mem_nil, hcut⟩
+  | fuel + 1, queue, work, d, hd, hcut => by
+    rw [eThreshold_succ]
+    split_ifs with hcond
+    · cases hq : queue.getLast? with
+      | none =>
+        simp only
+        exact eThreshold_spec c root target depth hA fuel work queue d hd
+          (hcut.perm List.perm_append_comm)
+      | some it =>
+        simp only
+        have hqe := EdropLast_append_getLast? queue it hq
+        have hcut' : ECut c root (it :: (queue.dropLast ++ work)) := by
+          refine hcut.perm ?_
+          rw [← hqe, List.append_assoc, List.dropLast_concat]
+          exact List.perm_middle
+        obtain ⟨rs, h1, h2, h3⟩ := eNextNodes_spec c root depth it.node it.path d hd
+          (hcut'.1 it List.mem_cons_self)
+        cases hN : (eNextNodes c depth it.node it.path d).1 with
+        | none =>
+          simp only
+          rw [h1]
+          obtain ⟨rs', g1, g2, g3⟩ := eThreshold_spec c root target depth hA fuel queue.dropLast
+            work (d.run c rs) (hd.run rs) hcut'.tail
+          refine ⟨rs ++ rs', by rw [g1, DrawSt.run_append], ?_, g3⟩
+          intro r hr
+          rcases List.mem_append.mp hr with h | h
+          · exact h2 r h
+          · exact g2 r h
+        | some nexts =>
+          simp only
+          rw [h1]
+          obtain ⟨P, one, i, ks, hP, hon, ho, hitems⟩ := h3 nexts hN
+          have hcut'' : ECut c root (queue.dropLast ++ (work ++ nexts)) := by
+            have := hcut'.expand hP hon ho (hA P one i ks hon ho)
+            rw [← hitems] at this
+            refine this.perm ?_
+            rw [← List.append_assoc queue.dropLast work nexts]
+            exact List.perm_append_comm
+          obtain ⟨rs', g1, g2, g3⟩ := eThreshold_spec c root target depth hA fuel queue.dropLast
+            (work ++ nexts) (d.run c rs) (hd.run rs) hcut''
+          refine ⟨rs ++ rs', by rw [g1, DrawSt.run_append], ?_, g3⟩
+          intro r hr
+          rcases List.mem_append.mp hr with h | h
+          · exact h2 r h
+          · exact g2 r h
+    · exact ⟨[], rfl, fun _ h => absurd h List.not_mem_nil, hcut⟩
+
+theorem ECut.left {c : ECtx α} {root : Node α} {a b : List (EItem α)} (h : ECut c root (a ++ b)) :
+    ECut c root a :=
+  ⟨fun it hit => h.1 it (List.mem_append_left _ hit), (List.pairwise_append.mp h.2).1⟩
+
+theorem ECut.root (c : ECtx α) (root : Node α) : ECut c root ([⟨[], root⟩] ++ []) := by
+  refine ⟨fun it hit => ?_, by simp⟩
+  simp only [List.append_nil, List.mem_singleton] at hit
+  subst hit
+  exact OnT.here root
+
+theorem externalMultiEffects_eq (g : Game α) (c : ECtx α) (target : Nat) (log : List (DrawRec α)) :
+    externalMultiEffects g c target log =
+      ((eRunTasks c (eThreshold c target g.root.size (2 * g.root.size + 2) [⟨[], g.root⟩] []
+            { log := log }).1
+          (eThreshold c target g.root.size (2 * g.root.size + 2) [⟨[], g.root⟩] []
+            { log := log }).2.2).2.1 ++
+        (erecC c (eRunTasks c (eThreshold c target g.root.size (2 * g.root.size + 2) [⟨[], g.root⟩] []
+            { log := log }).1
+          (eThreshold c target g.root.size (2 * g.root.size + 2) [⟨[], g.root⟩] []
+            { log := log }).2.2).1 g.root []
+          (eRunTasks c (eThreshold c target g.root.size (2 * g.root.size + 2) [⟨[], g.root⟩] []
+            { log := log }).1
+          (eThreshold c target g.root.size (2 * g.root.size + 2) [⟨[], g.root⟩] []
+            { log := log }).2.2).2.2).2.1,
+       (erecC c (eRunTasks c (eThreshold c target g.root.size (2 * g.root.size + 2) [⟨[], g.root⟩] []
+            { log := log }).1
+          (eThreshold c target g.root.size (2 * g.root.size + 2) [⟨[], g.root⟩] []
+            { log := log }).2.2).1 g.root []
+          (eRunTasks c (eThreshold c target g.root.size (2 * g.root.size + 2) [⟨[], g.root⟩] []
+            { log := log }).1
+          (eThreshold c target g.root.size (2 * g.root.size + 2) [⟨[], g.root⟩] []
+            { log := log }).2.2).2.2).2.2) := by
+  rfl
+
+/-- **the traversal phase of a multi-threaded pass**: its accumulations are a rearrangement of
+the plain traversal's, its sample requests are those of the frontier construction (all of them
+requests of the plain traversal) followed by a rearrangement of the plain traversal's -/
+theorem externalMultiEffects_spec (g : Game α) (c : ECtx α) (target : Nat) (log : List (DrawRec α))
+    (hA : ∀ P one i ks, OnT c g.root P (.player one i ks) → (one == c.first) = true →
+      ks.length ≤ (c.strat one i).length) :
+    ∃ rsT rs, (externalMultiEffects g c target log).1.Perm (effsOf (precC c [] g.root []).2) ∧
+      (externalMultiEffects g c target log).2 = ({ log := log } : DrawSt α).run c (rsT ++ rs) ∧
+      (∀ r ∈ rsT, r ∈ reqsOf (precC c [] g.root []).2) ∧
+      rs.Perm (reqsOf (precC c [] g.root []).2) := by
+  rw [externalMultiEffects_eq]
+  obtain ⟨rsT, t1, t2, t3⟩ := eThreshold_spec c g.root target g.root.size hA
+    (2 * g.root.size + 2) [⟨[], g.root⟩] [] { log := log } (ECons.init c log) (ECut.root c g.root)
+  have hcut := t3.left
+  have hd1 : ECons c (({ log := log } : DrawSt α).run c rsT) := (ECons.init c log).run rsT
+  rw [t1]
+  generalize (eThreshold c target g.root.size (2 * g.root.size + 2) [⟨[], g.root⟩] []
+    { log := log }).1 = queue at hcut ⊢
+  rw [eRunTasks_pure c queue _ hd1]
+  simp only
+  rw [erecC_pure c _ g.root [] _ (hd1.run _)]
+  simp only
+  obtain ⟨-, i2⟩ := precC_add_items c g.root queue [] hcut.1 hcut.2 (by simp)
+  rw [List.nil_append] at i2
+  have i3 : (queue.flatMap (EItem.evs c) ++ (precC c (queue.map (EItem.val c)) g.root []).2).Perm
+      (precC c [] g.root []).2 := List.perm_append_comm.trans i2
+  refine ⟨rsT, reqsOf (queue.flatMap (EItem.evs c)) ++
+    reqsOf (precC c (queue.map (EItem.val c)) g.root []).2, ?_, ?_, t2, ?_⟩
+  · rw [← effsOf_append]
+    exact List.Perm.filterMap _ i3
+  · rw [DrawSt.run_append, DrawSt.run_append]
+  · rw [← reqsOf_append]
+    exact List.Perm.filterMap _ i3
+
+/-- the plain traversal in terms of the pure one -/
+theorem erec_pure (c : ECtx α) (n : Node α) (d : DrawSt α) (hd : ECons c d) :
+    erec c n d = ((precC c [] n []).1, effsOf (precC c [] n []).2,
+      d.run c (reqsOf (precC c [] n []).2)) := by
+  rw [← erec_eq_erecC c n [] d, erecC_pure c [] n [] d hd]
+
+/-! ### the draw log -/
+
+/-- the record a fresh request leaves in the log -/
+def ECtx.recOf (c : ECtx α) : EReq → DrawRec α
+  | .ch i => ⟨0, i, c.chancePass, c.ch.getD i [], c.oc i⟩
+  | .pl i => ⟨if !c.first then 1 else 2, i, c.playerPass, c.strat (!c.first) i, c.op i⟩
+
+/-- the requests served so far in this pass -/
+def DrawSt.keys (d : DrawSt α) : List EReq :=
+  d.chance.map (fun e => EReq.ch e.1) ++ d.player.map (fun e => EReq.pl e.1)
+
+/-- every request served so far was logged exactly once -/
+def ETr (c : ECtx α) (log0 : List (DrawRec α)) (d : DrawSt α) : Prop :=
+  d.keys.Nodup ∧ d.log.Perm (d.keys.map c.recOf ++ log0)
+
+theorem assocGet_eq_none_iff (l : List (Nat × Nat)) (i : Nat) :
+    assocGet l i = none ↔ ∀ e ∈ l, e.1 ≠ i := by
+  unfold assocGet
+  simp [List.find?_eq_none]
+
+theorem assocGet_some_mem (l : List (Nat × Nat)) (i k : Nat) (h : assocGet l i = some k) :
+    ∃ e ∈ l, e.1 = i := by
+  by_contra hne
+  have hne' : ∀ e ∈ l, e.1 ≠ i := fun e he hei => hne ⟨e, he, hei⟩
+  rw [(assocGet_eq_none_iff l i).2 hne'] at h
+  simp at h
+
+theorem mem_keys_ch (d : DrawSt α) (i : Nat) : EReq.ch i ∈ d.keys ↔ ∃ e ∈ d.chance, e.1 = i := by
+  simp [DrawSt.keys]
+
+theorem mem_keys_pl (d : DrawSt α) (i : Nat) : EReq.pl i ∈ d.keys ↔ ∃ e ∈ d.player, e.1 = i := by
+  simp [DrawSt.keys]
+
+theorem ETr.req {c : ECtx α} {log0 : List (DrawRec α)} {d : DrawSt α} (h : ETr c log0 d)
+    (r : EReq) :
+    ETr c log0 (d.req c r) ∧ ∀ r', r' ∈ (d.req c r).keys ↔ r' = r ∨ r' ∈ d.keys := by
+  cases r with
+  | ch i =>
+    cases hc : assocGet d.chance i with
+    | some k =>
+      have hmem : EReq.ch i ∈ d.keys := (mem_keys_ch d i).2 (assocGet_some_mem _ _ _ hc)
+      simp only [DrawSt.req, sampleChance, hc]
+      refine ⟨h, fun r' => ⟨fun hr => Or.inr hr, fun hr => ?_⟩⟩
+      rcases hr with hr | hr
+      · subst hr; exact hmem
+      · exact hr
+    | none =>
+      have hnot : EReq.ch i ∉ d.keys := by
+        rw [mem_keys_ch]
+        rintro ⟨e, he, hei⟩
+        exact (assocGet_eq_none_iff _ _).1 hc e he hei
+      simp only [DrawSt.req, sampleChance, hc]
+      have hkeys : (DrawSt.keys (⟨(i, c.draw 0 i c.chancePass (c.ch.getD i [])) :: d.chance,
+          d.player,
+          ⟨0, i, c.chancePass, c.ch.getD i [], c.draw 0 i c.chancePass (c.ch.getD i [])⟩ :: d.log⟩ :
+            DrawSt α))
+          = EReq.ch i :: d.keys := by
+        simp [DrawSt.keys]
+      refine ⟨⟨?_, ?_⟩, fun r' => ?_⟩
+      · rw [hkeys]; exact List.nodup_cons.mpr ⟨hnot, h.1⟩
+      · rw [hkeys, List.map_cons, List.cons_append]
+        exact List.Perm.cons _ h.2
+      · rw [hkeys, List.mem_cons]
+  | pl i =>
+    cases hc : assocGet d.player i with
+    | some k =>
+      have hmem : EReq.pl i ∈ d.keys := (mem_keys_pl d i).2 (assocGet_some_mem _ _ _ hc)
+      simp only [DrawSt.req, samplePlayer, hc]
+      refine ⟨h, fun r' => ⟨fun hr => Or.inr hr, fun hr => ?_⟩⟩
+      rcases hr with hr | hr
+      · subst hr; exact hmem
+      · exact hr
+    | none =>
+      have hnot : EReq.pl i ∉ d.keys := by
+        rw [mem_keys_pl]
+        rintro ⟨e, he, hei⟩
+        exact (assocGet_eq_none_iff _ _).1 hc e he hei
+      simp only [DrawSt.req, samplePlayer, hc]
+      have hkeys : (DrawSt.keys (⟨d.chance,
+          (i, c.draw (if !c.first then 1 else 2) i c.playerPass (c.strat (!c.first) i)) :: d.player,
+          ⟨if !c.first then 1 else 2, i, c.playerPass, c.strat (!c.first) i,
+            c.draw (if !c.first then 1 else 2) i c.playerPass (c.strat (!c.first) i)⟩ :: d.log⟩ :
+            DrawSt α)).Perm
+          (EReq.pl i :: d.keys) := by
+        simp only [DrawSt.keys, List.map_cons]
+        exact List.perm_middle
+      refine ⟨⟨?_, ?_⟩, fun r' => ?_⟩
+      · exact (hkeys.nodup_iff).mpr (List.nodup_cons.mpr ⟨hnot, h.1⟩)
+      · refine List.Perm.trans ?_ ((hkeys.map c.recOf).append_right log0).symm
+        rw [List.map_cons, List.cons_append]
+        exact List.Perm.cons _ h.2
+      · rw [hkeys.mem_iff, List.mem_cons]
+
+theorem ETr.run {c : ECtx α} {log0 : List (DrawRec α)} {d : DrawSt α} (h : ETr c log0 d)
+    (rs : List EReq) :
+    ETr c log0 (d.run c rs) ∧ ∀ r', r' ∈ (d.run c rs).keys ↔ r' ∈ rs ∨ r' ∈ d.keys := by
+  induction rs generalizing d with
+  | nil => exact ⟨h, fun r' => by simp⟩
+  | cons r rs ih =>
+    obtain ⟨h1, h2⟩ := h.req r
+    obtain ⟨i1, i2⟩ := ih h1
+    refine ⟨i1, fun r' => ?_⟩
+    rw [DrawSt.run_cons, i2, h2, List.mem_cons]
+    tauto
+
+theorem ETr.init (c : ECtx α) (log : List (DrawRec α)) : ETr c log { log := log } :=
+  ⟨by simp [DrawSt.keys], by simp [DrawSt.keys]⟩
+
+/-- two passes that serve the same set of requests (in any order, any number of times) starting
+from rearranged logs end with rearranged logs -/
+theorem run_log_perm (c : ECtx α) (l1 l2 : List (DrawRec α)) (hl : l1.Perm l2) (rs1 rs2 : List EReq)
+    (hrs : ∀ r, r ∈ rs1 ↔ r ∈ rs2) :
+    ((({ log := l1 } : DrawSt α).run c rs1).log).Perm ((({ log := l2 } : DrawSt α).run c rs2).log) := by
+  obtain ⟨⟨n1, p1⟩, k1⟩ := (ETr.init c l1).run rs1
+  obtain ⟨⟨n2, p2⟩, k2⟩ := (ETr.init c l2).run rs2
+  have hk : (({ log := l1 } : DrawSt α).run c rs1).keys.Perm (({ log := l2 } : DrawSt α).run c rs2).keys := by
+    rw [List.perm_ext_iff_of_nodup n1 n2]
+    intro r
+    rw [k1, k2, hrs]
+    simp [DrawSt.keys]
+  exact p1.trans (((hk.map c.recOf).append hl).trans p2.symm)
+
+/-! ### one pass -/
+
+/-- the read-only context of a pass -/
+def passCtx (g : Game α) (first : Bool) (draw : DrawFn α) (it : Nat) (s : SolveSt α) : ECtx α :=
+  ⟨g.chance, first, s.strat, draw, 2 * (it - 1) + (if first then 0 else 1),
+    if first then it - 1 else it⟩
+
+theorem externalPass_eq (g : Game α) (first : Bool) (p : RegretParams α) (draw : DrawFn α)
+    (it : Nat) (s : SolveSt α) (log : List (DrawRec α)) :
+    externalPass g first p draw it s log =
+      ((s.applyEffs (erec (passCtx g first draw it s) g.root { log := log }).2.1).set first
+          (advanceAll p it (if first then it - 1 else it)
+            ((s.applyEffs (erec (passCtx g first draw it s) g.root { log := log }).2.1).get first) 0).1,
+        (advanceAll p it (if first then it - 1 else it)
+            ((s.applyEffs (erec (passCtx g first draw it s) g.root { log := log }).2.1).get first) 0).2,
+        (erec (passCtx g first draw it s) g.root { log := log }).2.2.log) := by
+  rfl
+
+theorem externalMultiPassS_eq (sched : Sched α) (g : Game α) (first : Bool) (p : RegretParams α)
+    (draw : DrawFn α) (target : Nat) (it : Nat) (s : SolveSt α) (log : List (DrawRec α)) :
+    externalMultiPassS sched g first p draw target it s log =
+      ((s.applyEffs (sched (2 * (it - 1) + (if first then 0 else 1))
+          (externalMultiEffects g (passCtx g first draw it s) target log).1)).set first
+          (advanceAll p it (if first then it - 1 else it)
+            ((s.applyEffs (sched (2 * (it - 1) + (if first then 0 else 1))
+              (externalMultiEffects g (passCtx g first draw it s) target log).1)).get first) 0).1,
+        (advanceAll p it (if first then it - 1 else it)
+            ((s.applyEffs (sched (2 * (it - 1) + (if first then 0 else 1))
+              (externalMultiEffects g (passCtx g first draw it s) target log).1)).get first) 0).2,
+        (externalMultiEffects g (passCtx g first draw it s) target log).2.log) := by
+  rfl
+
+/-- **one pass, multi = single**: same state, same bound, rearranged log — for rearranged input
+logs, every task target and every fair schedule -/
+theorem externalMultiPassS_same (sched : Sched α) (hs : sched.Fair) (g : Game α) (first : Bool)
+    (p : RegretParams α) (draw : DrawFn α) (target : Nat) (it : Nat) (s : SolveSt α)
+    (log log' : List (DrawRec α)) (hl : log.Perm log')
+    (hA : ∀ P one i ks, OnT (passCtx g first draw it s) g.root P (.player one i ks) →
+      (one == (passCtx g first draw it s).first) = true →
+      ks.length ≤ ((passCtx g first draw it s).strat one i).length) :
+    (externalMultiPassS sched g first p draw target it s log).1
+        = (externalPass g first p draw it s log').1 ∧
+      (externalMultiPassS sched g first p draw target it s log).2.1
+        = (externalPass g first p draw it s log').2.1 ∧
+      (externalMultiPassS sched g first p draw target it s log).2.2.Perm
+        (externalPass g first p draw it s log').2.2 := by
+  rw [externalMultiPassS_eq, externalPass_eq]
+  obtain ⟨rsT, rs, e1, e2, e3, e4⟩ :=
+    externalMultiEffects_spec g (passCtx g first draw it s) target log hA
+  rw [erec_pure _ _ _ (ECons.init _ log')]
+  have hst : s.applyEffs (sched (2 * (it - 1) + (if first then 0 else 1))
+      (externalMultiEffects g (passCtx g first draw it s) target log).1)
+      = s.applyEffs (effsOf (precC (passCtx g first draw it s) [] g.root []).2) :=
+    SolveSt.applyEffs_perm s ((hs _ _).trans e1)
+  rw [hst, e2]
+  refine ⟨rfl, rfl, ?_⟩
+  refine run_log_perm _ log log' hl _ _ (fun r => ?_)
+  rw [List.mem_append, e4.mem_iff]
+  exact ⟨fun h => h.elim (e3 r) id, Or.inr⟩
+
+/-! ### the shape of the solver state
+
+`eNextNodes` hands out *all* children of a node of the updating player while the traversal visits
+only those with a strategy entry: the two agree when the node has as many children as its infoset
+has actions (`NodeOK`) and the strategy vectors keep the length they were created with. -/
+
+/-- every registered infoset has a state entry whose vectors have one entry per action -/
+def EShape (g : Game α) (s : SolveSt α) : Prop :=
+  ∀ (one : Bool) (i : Nat) (e : PInfo), (g.infos one)[i]? = some e →
+    ∃ x : InfoSt α, (s.get one)[i]? = some x ∧ x.strat.length = e.actions.length ∧
+      x.cumRegret.length = e.actions.length
+
+theorem EShape.init (g : Game α) : EShape g (SolveSt.init g) := by
+  intro one i e he
+  cases one
+  · simp only [Game.infos, Bool.false_eq_true, if_false] at he
+    refine ⟨InfoSt.new e.actions.length, ?_, ?_, ?_⟩
+    · simp [SolveSt.init, SolveSt.get, he]
+    · simp [InfoSt.new]
+    · simp [InfoSt.new]
+  · simp only [Game.infos, if_true] at he
+    refine ⟨InfoSt.new e.actions.length, ?_, ?_, ?_⟩
+    · simp [SolveSt.init, SolveSt.get, he]
+    · simp [InfoSt.new]
+    · simp [InfoSt.new]
+
+theorem SolveSt.get_set (s : SolveSt α) (o : Bool) (l : List (InfoSt α)) (one : Bool) :
+    (s.set o l).get one = if one = o then l else s.get one := by
+  cases o <;> cases one <;> simp [SolveSt.get, SolveSt.set]
+
+theorem EShape.applyEff {g : Game α} {s : SolveSt α} (h : EShape g s) (e : Eff α) :
+    EShape g (s.applyEff e) := by
+  intro one i inf hinf
+  obtain ⟨x, hx, h1, h2⟩ := h one i inf hinf
+  unfold SolveSt.applyEff
+  rw [SolveSt.get_set]
+  split_ifs with ho
+  · subst ho
+    rw [List.getElem?_modify, hx]
+    by_cases hi : e.info = i
+    · refine ⟨x.apply e.slot e.act e.delta, by simp [hi], ?_, ?_⟩
+      · cases e.slot <;> simp [InfoSt.apply, h1]
+      · cases e.slot <;> simp [InfoSt.apply, addAt, h2]
+    · exact ⟨x, by simp [hi], h1, h2⟩
+  · exact ⟨x, hx, h1, h2⟩
+
+theorem EShape.applyEffs {g : Game α} {s : SolveSt α} (h : EShape g s) (es : List (Eff α)) :
+    EShape g (s.applyEffs es) := by
+  unfold SolveSt.applyEffs
+  induction es generalizing s with
+  | nil => exact h
+  | cons e es ih => exact ih (h.applyEff e)
+
+theorem advanceAll_fst (p : RegretParams α) (it itAvg : Nat) :
+    ∀ (l : List (InfoSt α)) (acc : α),
+      (advanceAll p it itAvg l acc).1 = l.map (fun x => (x.advance p it itAvg).1)
+  | [], _ => rfl
+  | x :: xs, acc => by
+    have := advanceAll_fst p it itAvg xs (acc + (x.advance p it itAvg).2)
+    simp only [advanceAll, List.map_cons]
+    exact congrArg _ this
+
+theorem EregretMatch_length (np : Ext α) (l : List α) : (regretMatch np l).length = l.length := by
+  unfold regretMatch
+  simp only
+  split_ifs
+  · simp
+  · cases np with
+    | negInf => simp [oneHot]
+    | posInf => simp [oneHot]
+    | fin w =>
+      simp only
+      split_ifs <;> simp
+
+theorem EShape.advance {g : Game α} {s : SolveSt α} (h : EShape g s) (first : Bool)
+    (p : RegretParams α) (it itAvg : Nat) :
+    EShape g (s.set first (advanceAll p it itAvg (s.get first) 0).1) := by
+  intro one i inf hinf
+  obtain ⟨x, hx, h1, h2⟩ := h one i inf hinf
+  rw [SolveSt.get_set]
+  split_ifs with ho
+  · subst ho
+    rw [advanceAll_fst, List.getElem?_map, hx]
+    refine ⟨(x.advance p it itAvg).1, rfl, ?_, ?_⟩
+    · simp only [InfoSt.advance, EregretMatch_length]; exact h2
+    · simp only [InfoSt.advance, discountCumRegret, List.length_map]; exact h2
+  · exact ⟨x, hx, h1, h2⟩
+
+theorem EShape.pass {g : Game α} {s : SolveSt α} (h : EShape g s) (first : Bool)
+    (p : RegretParams α) (draw : DrawFn α) (it : Nat) (log : List (DrawRec α)) :
+    EShape g (externalPass g first p draw it s log).1 := by
+  rw [externalPass_eq]
+  exact (h.applyEffs _).advance first p it _
+
+theorem nodeOKL_get (g : Game α) :
+    ∀ (ks : List (Node α)) (j : Nat) (k : Node α), NodeOKL g ks → ks[j]? = some k → NodeOK g k
+  | [], _, _, _, h => by simp at h
+  | k0 :: ks, 0, k, hk, h => by
+    simp only [List.getElem?_cons_zero, Option.some.injEq] at h
+    subst h
+    exact (by simpa [NodeOKL] using hk : NodeOK g k0 ∧ NodeOKL g ks).1
+  | k0 :: ks, j + 1, k, hk, h => by
+    simp only [List.getElem?_cons_succ] at h
+    exact nodeOKL_get g ks j k (by simpa [NodeOKL] using hk : NodeOK g k0 ∧ NodeOKL g ks).2 h
+
+theorem OnT.nodeOK {g : Game α} {c : ECtx α} {n : Node α} {P : Path} {m : Node α}
+    (h : OnT c n P m) (hn : NodeOK g n) : NodeOK g m := by
+  induction h with
+  | here n => exact hn
+  | chance i ks k rel m hk _ ih =>
+    obtain ⟨-, -, hL⟩ := (by simpa [NodeOK] using hn : _ ∧ 2 ≤ ks.length ∧ NodeOKL g ks)
+    exact ih (nodeOKL_get g ks _ k hL hk)
+  | own one i ks a k rel m _ _ hk _ ih =>
+    obtain ⟨-, -, hL⟩ := (by simpa [NodeOK] using hn : _ ∧ 2 ≤ ks.length ∧ NodeOKL g ks)
+    exact ih (nodeOKL_get g ks _ k hL hk)
+  | opp one i ks k rel m _ hk _ ih =>
+    obtain ⟨-, -, hL⟩ := (by simpa [NodeOK] using hn : _ ∧ 2 ≤ ks.length ∧ NodeOKL g ks)
+    exact ih (nodeOKL_get g ks _ k hL hk)
+
+/-- in a well-formed game with a well-shaped state every player node has exactly one child per
+strategy entry -/
+theorem arity_of_shape {g : Game α} (hn : NodeOK g g.root) {s : SolveSt α} (hs : EShape g s)
+    (first : Bool) (draw : DrawFn α) (it : Nat) :
+    ∀ P one i ks, OnT (passCtx g first draw it s) g.root P (.player one i ks) →
+      (one == (passCtx g first draw it s).first) = true →
+      ks.length ≤ ((passCtx g first draw it s).strat one i).length := by
+  intro P one i ks hon _
+  have hk := hon.nodeOK hn
+  obtain ⟨⟨e, he, hlen⟩, -, -⟩ :=
+    (by simpa [NodeOK] using hk :
+      (∃ e, (g.infos one)[i]? = some e ∧ e.actions.length = ks.length) ∧ 2 ≤ ks.length ∧ NodeOKL g ks)
+  obtain ⟨x, hx, h1, -⟩ := hs one i e he
+  show ks.length ≤ (s.strat one i).length
+  unfold SolveSt.strat
+  rw [hx]
+  simp only
+  omega
+
+/-! ### iterations and the whole solve -/
+
+theorem externalIter_eq (g : Game α) (p : RegretParams α) (draw : DrawFn α) (it : Nat)
+    (s : SolveSt α) (log : List (DrawRec α)) :
+    externalIter g p draw it s log =
+      ((externalPass g false p draw it (externalPass g true p draw it s log).1
+          (externalPass g true p draw it s log).2.2).1,
+       (externalPass g true p draw it s log).2.1,
+       (externalPass g false p draw it (externalPass g true p draw it s log).1
+          (externalPass g true p draw it s log).2.2).2.1,
+       (externalPass g false p draw it (externalPass g true p draw it s log).1
+          (externalPass g true p draw it s log).2.2).2.2) := by
+  rfl
+
+theorem externalMultiIterS_eq (sched : Sched α) (g : Game α) (p : RegretParams α) (draw : DrawFn α)
+    (target : Nat) (it : Nat) (s : SolveSt α) (log : List (DrawRec α)) :
+    externalMultiIterS sched g p draw target it s log =
+      ((externalMultiPassS sched g false p draw target it
+          (externalMultiPassS sched g true p draw target it s log).1
+          (externalMultiPassS sched g true p draw target it s log).2.2).1,
+       (externalMultiPassS sched g true p draw target it s log).2.1,
+       (externalMultiPassS sched g false p draw target it
+          (externalMultiPassS sched g true p draw target it s log).1
+          (externalMultiPassS sched g true p draw target it s log).2.2).2.1,
+       (externalMultiPassS sched g false p draw target it
+          (externalMultiPassS sched g true p draw target it s log).1
+          (externalMultiPassS sched g true p draw target it s log).2.2).2.2) := by
+  rfl
+
+/-- **one iteration, multi = single** -/
+theorem externalMultiIterS_same (sched : Sched α) (hs : sched.Fair) (g : Game α)
+    (hn : NodeOK g g.root) (p : RegretParams α) (draw : DrawFn α) (target : Nat) (it : Nat)
+    (s : SolveSt α) (hsh : EShape g s) (log log' : List (DrawRec α)) (hl : log.Perm log') :
+    (externalMultiIterS sched g p draw target it s log).1 = (externalIter g p draw it s log').1 ∧
+    (externalMultiIterS sched g p draw target it s log).2.1 = (externalIter g p draw it s log').2.1 ∧
+    (externalMultiIterS sched g p draw target it s log).2.2.1
+      = (externalIter g p draw it s log').2.2.1 ∧
+    (externalMultiIterS sched g p draw target it s log).2.2.2.Perm
+      (externalIter g p draw it s log').2.2.2 ∧
+    EShape g (externalIter g p draw it s log').1 := by
+  rw [externalMultiIterS_eq, externalIter_eq]
+  obtain ⟨a1, a2, a3⟩ := externalMultiPassS_same sched hs g true p draw target it s log log' hl
+    (arity_of_shape hn hsh true draw it)
+  have hsh1 : EShape g (externalPass g true p draw it s log').1 := hsh.pass true p draw it log'
+  rw [a1, a2]
+  obtain ⟨b1, b2, b3⟩ := externalMultiPassS_same sched hs g false p draw target it
+    (externalPass g true p draw it s log').1 _ _ a3 (arity_of_shape hn hsh1 false draw it)
+  exact ⟨b1, rfl, b2, b3, hsh1.pass false p draw it _⟩
+
+theorem EsolveLoop_succ (step : IterFn α) (thr : Option (Ext α)) (n it : Nat) (s : SolveSt α)
+    (r1 r2 : Ext α) (log : List (DrawRec α)) :
+    solveLoop step thr (n + 1) it s r1 r2 log =
+      if belowThreshold (step it s log).2.1 (step it s log).2.2.1 thr = true then
+        ⟨.fin (step it s log).2.1, .fin (step it s log).2.2.1, (step it s log).1.avg true,
+          (step it s log).1.avg false, it, (step it s log).2.2.2⟩
+      else solveLoop step thr n (it + 1) (step it s log).1 (.fin (step it s log).2.1)
+        (.fin (step it s log).2.2.1) (step it s log).2.2.2 := by
+  rw [solveLoop]
+
+/-- two iteration functions that agree up to the order of the draw log (on states satisfying an
+invariant the second one preserves) give the same solve -/
+theorem EsolveLoop_same (stepM stepS : IterFn α) (thr : Option (Ext α)) (Inv : SolveSt α → Prop)
+    (hstep : ∀ it s log log', Inv s → log.Perm log' →
+      (stepM it s log).1 = (stepS it s log').1 ∧ (stepM it s log).2.1 = (stepS it s log').2.1 ∧
+      (stepM it s log).2.2.1 = (stepS it s log').2.2.1 ∧
+      (stepM it s log).2.2.2.Perm (stepS it s log').2.2.2 ∧ Inv (stepS it s log').1) :
+    ∀ (n it : Nat) (s : SolveSt α) (r1 r2 : Ext α) (log log' : List (DrawRec α)), Inv s →
+      log.Perm log' →
+      (solveLoop stepM thr n it s r1 r2 log).Same (solveLoop stepS thr n it s r1 r2 log')
+  | 0, it, s, r1, r2, log, log', _, hl => by
+    simp only [solveLoop]
+    exact ⟨rfl, rfl, rfl, rfl, rfl, hl⟩
+  | n + 1, it, s, r1, r2, log, log', hi, hl => by
+    obtain ⟨h1, h2, h3, h4, h5⟩ := hstep it s log log' hi hl
+    rw [EsolveLoop_succ, EsolveLoop_succ, h1, h2, h3]
+    split_ifs with hb
+    · exact ⟨rfl, rfl, rfl, rfl, rfl, h4⟩
+    · exact EsolveLoop_same stepM stepS thr Inv hstep n (it + 1) _ _ _ _ _ h5 h4
+
+/-- **C07, external sampling** -/
+theorem solveExternalMultiS_same (sched : Sched α) (hs : sched.Fair) (g : Game α)
+    (hn : NodeOK g g.root) (p : RegretParams α) (draw : DrawFn α) (T : Nat) (thr : Option (Ext α))
+    (target : Nat) :
+    (solveExternalMultiS sched g p draw T thr target).Same (solveExternalSingle g p draw T thr) := by
+  unfold solveExternalMultiS solveExternalSingle solveWith
+  exact EsolveLoop_same _ _ thr (EShape g)
+    (fun it s log log' hi hl => externalMultiIterS_same sched hs g hn p draw target it s hi log log' hl)
+    T 1 _ _ _ [] [] (EShape.init g) (List.Perm.refl _)
 
 end Cfr
